@@ -1,6 +1,6 @@
 """C02 — realised recombination and segregation match the crossover probabilities.
 
-Four case kinds:
+Case kinds (round 3 additions are marked +):
   scripted  mat_meiosis / mat_dh / mat_mate (breed/prot/mate/util.py) and dense_meiosis / dense_dh /
             dense_cross (core/util/mate.py) driven by a ScriptedGenerator (ties r = xoprob, r = 0,
             r = xoprob +- 2^-53, xoprob in {0, 1/2, 1, ...}); functional correspondence with the Lean
@@ -14,12 +14,30 @@ Four case kinds:
   xoprob    crossover probabilities assigned from a genetic map (gdist1g + map function, directly and
             through DensePhasedGenotypeMatrix.interp_xoprob): 1/2 exactly at every chromosome start,
             map function of the distance to the previous marker elsewhere;
++ scripted  also: partly inbred parents (homozygous at some markers: provenance only partly observable, Spec =
+            the set-of-possible-copies automaton `specRowObs`), negative / int8 / list `sel`, Fortran-ordered and
+            strided genotype arrays, strided / float32 xoprob, int16/int64 alleles, tiny and near-1/2 probabilities
+            (2^-27, 2^-17, 1/2 +- 2^-30) with draws one ulp either side, several consecutive calls on the same
+            generator and the same input arrays (inputs must stay untouched, every call needs fresh draws);
++ big       the same functions past internal size constants: > 8192 markers (block boundaries inside a
+            chromosome), > 1024 / 4096 gametes, > 127 taxa; compact description, expanded to a scripted case;
++ protocol  every cell of the progeny of all 7 protocols INCLUDING selfing generations (nself 0-3) against C01's
+            protocol model run on the recorded draws of all meioses (`c02.proto_full`); partly inbred founders;
+            two consecutive mate() calls on one protocol object;
++ embv      every doubled-haploid matrix against the model of the from_gmod loop (`c02.embv_full`), Spec through
+            `specRowObs` (partly inbred taxa included);
++ xoprob    grouped but unsorted chromosome labels, large common offsets and 2^-27 gaps, rprob1p, interp_xoprob
+            with an ExtendedGeneticMap and on a DenseGenotypeMatrix, markers presented in shuffled order,
+            interp_xoprob on an ungrouped matrix (must be rejected);
   statistical-support
+            + partly inbred parents (statistics over the heterozygous markers), + protocols with one selfing
+            generation (copy of the hybrid read from the founder labels);
             statistical support (fixed seeds, corpus only): empirical segregation / pairwise
             recombination / joint frequencies of 2*10^4 (quick) or 2*10^5 (thorough) gametes against the
             exact probabilities of the Lean model, Bernstein budget (>= 7.5 sigma + 19 counts).
 """
 import contextlib
+import json
 import math
 from fractions import Fraction
 
@@ -69,9 +87,11 @@ def _gen_classes():
     class Scripted:
         """mixin: `uniform` pops scripted matrices and logs (low, high, size)"""
 
-        def _init_script(self, script):
-            self.script = [numpy.array([[_f(v) for v in row] for row in m], dtype=float) for m in script]
+        def _init_script(self, script, dden=1):
+            self.script = [numpy.array([[_f(Fraction(v) / dden) for v in row] for row in m], dtype=float).reshape(
+                len(m), len(m[0]) if m else 0) for m in script]
             self.log = []
+            self.handed = []
 
         def uniform(self, low=0.0, high=1.0, size=None):
             shape = tuple(int(s) for s in (size if isinstance(size, (tuple, list)) else
@@ -79,8 +99,23 @@ def _gen_classes():
             self.log.append([canon.enc(low), canon.enc(high), list(shape)])
             nxt = self.script.pop(0) if self.script else numpy.zeros(shape)
             if int(numpy.prod(shape)) == nxt.size:
-                return nxt.reshape(shape).copy()
-            return numpy.resize(nxt if nxt.size else numpy.zeros(1), shape)
+                out = nxt.reshape(shape).copy()
+            else:
+                out = numpy.resize(nxt if nxt.size else numpy.zeros(1), shape)
+            self.handed.append(out.copy())
+            return out
+
+        # the same values through the other spellings of "uniform on [0, 1)" (a rewrite that uses them keeps the
+        # law; it shows up as a changed call pattern, not as gametes that ignore their draws)
+        def random(self, size=None, *a, **k):
+            out = self.uniform(0.0, 1.0, size)
+            self.log[-1] = ["random"] + self.log[-1][2:]
+            return out
+
+        def random_sample(self, size=None):
+            out = self.uniform(0.0, 1.0, size)
+            self.log[-1] = ["random_sample"] + self.log[-1][2:]
+            return out
 
     class Recording:
         """mixin: genuine draws, logged with their arguments"""
@@ -96,15 +131,27 @@ def _gen_classes():
             self.draws.append(numpy.array(out, dtype=float, copy=True))
             return out
 
+        def _rec_other(self, name, size, a, k):
+            out = getattr(super(), name)(size, *a, **k)
+            self.log.append([name, list(numpy.shape(out))])
+            self.draws.append(numpy.array(out, dtype=float, copy=True))
+            return out
+
+        def random(self, size=None, *a, **k):
+            return self._rec_other("random", size, a, k)
+
+        def random_sample(self, size=None, *a, **k):
+            return self._rec_other("random_sample", size, a, k)
+
     class ScriptedGenerator(Scripted, numpy.random.Generator):
-        def __init__(self, script):
+        def __init__(self, script, dden=1):
             numpy.random.Generator.__init__(self, numpy.random.PCG64(0))
-            self._init_script(script)
+            self._init_script(script, dden)
 
     class ScriptedRandomState(Scripted, numpy.random.RandomState):
-        def __init__(self, script):
+        def __init__(self, script, dden=1):
             numpy.random.RandomState.__init__(self, 0)
-            self._init_script(script)
+            self._init_script(script, dden)
 
     class RecGenerator(Recording, numpy.random.Generator):
         def __init__(self, seed):
@@ -177,11 +224,40 @@ def _craft_key(values):
 
 def _code(t, p, j, off=0):
     """allele code unique per (taxon, phase) at every marker and varying along the chromosome"""
-    return ((2 * t + p + 5 * j + off) % 256) - 128
+    return ((2 * t + p + 5 * j + off + 37 * (t // 128)) % 256) - 128     # (taxa t and t + 128k keep distinct codes)
 
 
-def _geno(ntaxa, nvrnt, off=0):
-    return [[[_code(t, p, j, off) for j in range(nvrnt)] for t in range(ntaxa)] for p in range(2)]
+def _geno(ntaxa, nvrnt, off=0, homo=None):
+    """(2, ntaxa, nvrnt) allele codes; `homo[t]` = markers at which taxon t is homozygous (copy 1 carries the
+    allele of copy 0 there: a partly inbred individual)"""
+    g = [[[_code(t, p, j, off) for j in range(nvrnt)] for t in range(ntaxa)] for p in range(2)]
+    if homo:
+        for t, js in enumerate(homo[:ntaxa]):
+            for j in js:
+                if j < nvrnt:
+                    g[1][t][j] = g[0][t][j]
+    return g
+
+
+def _gen_homo(rng, ntaxa, m):
+    """per taxon a set of homozygous markers: none, a homozygous start, homozygous runs between heterozygous
+    markers, or all but two markers"""
+    out = []
+    for _ in range(ntaxa):
+        c = rng.random()
+        if c < 0.25 or m < 2:
+            js = []
+        elif c < 0.45:
+            js = list(range(rng.randrange(1, m)))                       # homozygous chromosome start
+        elif c < 0.75:
+            js = [j for j in range(m) if rng.random() < 0.5]
+        elif c < 0.9:
+            keep = set(rng.sample(range(m), 2))
+            js = [j for j in range(m) if j not in keep]
+        else:
+            js = list(range(m))                                         # a fully inbred line
+        out.append(js)
+    return out
 
 
 def _decode(mat, off=0):
@@ -191,9 +267,15 @@ def _decode(mat, off=0):
     return v // 2, v % 2
 
 
+TINY = [Fraction(1, 2 ** 27), Fraction(1, 2 ** 17), Fraction(1, 2 ** 40), Fraction(1, 2) - Fraction(1, 2 ** 30),
+        Fraction(1, 2) + Fraction(1, 2 ** 30), 1 - Fraction(1, 2 ** 20), Fraction(3, 2 ** 27)]
+
+
 def _xo_vector(rng, m, style=None):
     pool = [Fraction(0), Fraction(1, 2), Fraction(1), Fraction(1, 4), Fraction(1, 8), Fraction(3, 8),
             Fraction(1, 16), Fraction(3, 4), Fraction(1, 2), Fraction(1, 4)]
+    if style == "tiny":
+        pool = pool + TINY * 2
     xo = [rng.choice(pool) for _ in range(m)]
     if m and rng.random() < 0.6:
         xo[0] = Fraction(1, 2)
@@ -213,7 +295,21 @@ def _draw(rng, x):
         return x + EPS
     if c < 0.57:
         return 1 - EPS
+    if c < 0.64 and 0 < x < 1:
+        # within the reach of a tolerance-style comparison (numpy.isclose: 1e-8 + 1e-5 |x|), but not equal
+        d = rng.choice([Fraction(1, 2 ** 30), Fraction(1, 2 ** 34), x / 2 ** 20])
+        v = x + d if rng.random() < 0.5 else x - d
+        if 0 <= v < 1 and (v * 2 ** 53).denominator == 1:
+            return v
     return Fraction(rng.randrange(16), 16)
+
+
+def _proto_rows(proto, M, N, nself):
+    selfs = lambda k: [k, k] * nself
+    return {"SelfCross": [N, N] + selfs(N), "TwoWayCross": [N, N] + selfs(N),
+            "TwoWayDHCross": [M, M] + selfs(M) + [N], "ThreeWayCross": [M, M, N, N] + selfs(N),
+            "ThreeWayDHCross": [M, M, M, M] + selfs(M) + [N], "FourWayCross": [M, M, M, M, N, N] + selfs(N),
+            "FourWayDHCross": [M, M, M, M, M, M] + selfs(M) + [N]}[proto]
 
 
 def _budget(n, p):
@@ -235,25 +331,42 @@ class C02(Prop):
     MODULE = "PybropsModel.Props.C02"
     N_QUICK = 500
     N_THOROUGH = 6000
-    RULE = ("scripted: 1-6 taxa x 0-12 markers, unique allele code per (taxon, phase, marker), xoprob from "
-            "{0,1/16,1/8,1/4,3/8,1/2,3/4,1}, draws with exact ties r=xoprob, r=0, xoprob+-2^-53, 1-2^-53, both "
-            "source twins (util.py / core/util/mate.py), meiosis/dh/mate, stub generators and genuine Generator(MT19937) / "
-            "RandomState objects whose crafted state emits exactly the scripted values; "
-            "protocol: the 7 mating protocols, 1-3 crosses, array/scalar nmating,nprogeny, nself 0-1, genuine "
-            "seeded generators behind a recorder; xoprob: 1-5 chromosomes (single-marker ones included), "
-            "dyadic positions with zero distances, Haldane and Kosambi, rprob1g on StandardGeneticMap and on "
-            "ExtendedGeneticMap and via interp_xoprob; "
-            "stat (fixed seeds): all 6 functions + 7 protocols, explicit vectors and Haldane/Kosambi maps. "
-            "Non-trivial = scripted/protocol/embv case with >= 1 crossover and >= 2 gametes with different masks, "
-            "xoprob case with >= 2 chromosomes, any stat case")
+    RULE = ("scripted: 1-6 taxa x 0-12 markers, allele code unique per (taxon, phase, marker) EXCEPT at the homozygous markers "
+            "of partly inbred parents (homozygous starts / runs between heterozygous markers / all but two markers / fully "
+            "inbred), xoprob from {0,1/16,1/8,1/4,3/8,1/2,3/4,1} and {2^-40,2^-27,2^-17,1/2+-2^-30,1-2^-20}, draws with exact ties "
+            "r=xoprob, r=0, xoprob+-2^-53, 1-2^-53 and values within isclose-range of xoprob, both source twins (util.py / "
+            "core/util/mate.py), meiosis/dh/mate, negative and int8/int16/int32 sel, Fortran / strided genotype arrays, strided / "
+            "float32 xoprob, int16/int64 alleles, 1-3 consecutive calls on the same arrays and generator with the arrays edited in "
+            "place between calls, stub generators and genuine Generator(MT19937) / RandomState objects whose crafted state emits "
+            "exactly the scripted values; "
+            "big: 1030-70000 markers (block boundaries inside a chromosome), up to >1000 crossovers in one gamete, 1030-9000 "
+            "(thorough 70000) gametes, 130/260 taxa; "
+            "protocol: the 7 mating protocols, 1-3 (corpus: 1030) crosses, array/scalar nmating,nprogeny incl. 0, negative xconfig "
+            "entries, nself 0-3, partly inbred founders, two mate() calls on one object with xoprob re-assigned / edited in place in "
+            "between, genuine seeded generators behind a recorder or fully scripted draws with ties; EVERY progeny cell against the "
+            "protocol model on the recorded draws; "
+            "embv: every DH matrix of from_gmod against the model; xoprob: 1-300 chromosomes (single-marker ones included), sorted or "
+            "grouped-unsorted labels, dyadic positions with zero distances, 2^-27 gaps, offsets 1000/25000, Haldane and Kosambi, "
+            "rprob1g on StandardGeneticMap and ExtendedGeneticMap, rprob1p, interp_xoprob (both map classes, phased and unphased "
+            "matrix, shuffled markers, matrix already carrying probabilities of another map, ungrouped matrix rejected); "
+            "stat (fixed seeds): all 6 functions + 7 protocols, explicit vectors and Haldane/Kosambi maps, partly inbred parents, "
+            "protocols with one selfing generation, two-generation pedigrees against pairProb2. "
+            "Non-trivial = scripted/big/protocol/embv case with >= 1 crossover, >= 2 gametes with different masks and >= 1 observable "
+            "marker, xoprob case with >= 2 chromosomes, any stat case")
     TRUSTED = ["numpy Generator/RandomState.uniform(0,1,shape) delivers independent draws, each uniform on the "
                "grid k/2^53 (the theorem `draws_pushforward` turns exactly this into the Bernoulli product law)",
                "float comparison rnd < xoprob is exact (IEEE comparison of two doubles)",
-               "math.exp / numpy.exp / numpy.tanh agree to 1e-12 relative"]
+               "math.exp / numpy.exp / numpy.tanh agree to 1e-12 relative",
+               "C01's protocol model Mating.mate (tied to the seven mate() by C01's own correspondence run) is what "
+               "`c02.proto_full` evaluates on the recorded draws"]
     ASSUMPTIONS = ["crossover probabilities and scripted draws are dyadic rationals, so the float values are exact",
-                   "chromosome labels are sorted (documented precondition of gdist1g / interp_xoprob)",
-                   "sel indices are non-negative (negative numpy indices are not modelled)",
-                   "provenance is observable: the two copies of every parent differ at every marker",
+                   "equal chromosome labels are contiguous (documented precondition of gdist1g / interp_xoprob; sortedness is "
+                   "not assumed)",
+                   "provenance is observable where the two copies of the parent differ; at homozygous markers the Spec only "
+                   "demands the parent's allele and tracks the set of copies the gamete can be on (`specRowObs`)",
+                   "deterministic protocol Spec (every progeny cell = model on the recorded draws) is applied when the recorded "
+                   "call pattern is the modelled one; otherwise the case only counts as broken correspondence and the "
+                   "statistical cases decide",
                    "statistical cases: fixed seeds, budget sqrt(2 L v) + 2L/3 with L = ln(2e12) (Bernstein), i.e. "
                    ">= 7.5 sigma; they support the trusted generator contract, they are not what proves C02"]
 
@@ -311,7 +424,121 @@ class C02(Prop):
                         "xoprob": [h, "1/4", "1/8", h, "3/8", 0, 1]})
         out.append({"kind": "embv", "gen": "Generator", "seed": 5, "ntaxa": 3,
                     "xoprob": [h, "1/8", "1/4", h, "3/8"], "nprogeny": [2, 3, 1], "nrep": 2})
+        out += self._corpus_round3()
         out += self._stat_cases(20000)
+        return out
+
+    def _corpus_round3(self):
+        """one case per class of inputs added in round 3 (each is the minimal witness of a seeded change that the
+        round-2 check missed, or of a mutant of `mutants()`)"""
+        import random
+        h = "1/2"
+        q = "1/4"
+        out = []
+        # partly inbred parent: crossovers drawn AT homozygous markers still switch the copy; a homozygous
+        # chromosome start still randomises the starting copy
+        for impl in ("dense", "mat"):
+            out.append({"kind": "scripted", "impl": impl, "fn": "meiosis", "gen": "Generator",
+                        "geno": _geno(1, 5, 0, [[1, 2]]), "sel": [0, 0, 0], "xoprob": [h, q, q, q, h],
+                        "rnd": [[["3/4", 0, "3/4", "3/4", "3/4"], ["3/4", 0, 0, "3/4", "3/4"],
+                                 [q, "3/4", 0, "3/4", 0]]]})
+            out.append({"kind": "scripted", "impl": impl, "fn": "dh", "gen": "RandomState",
+                        "geno": _geno(2, 4, 7, [[0, 1], [0]]), "sel": [0, 1, 0], "xoprob": [h, q, q, q],
+                        "rnd": [[[q, "3/4", "3/4", "3/4"], [0, "3/4", "3/4", "3/4"], [q, 0, "3/4", 0]]]})
+            out.append({"kind": "scripted", "impl": impl, "fn": "mate", "gen": "Generator",
+                        "geno": _geno(2, 4, 3, [[1, 2], []]), "mgeno": _geno(1, 4, 90, [[0, 2]]),
+                        "sel": [0, 1], "msel": [0, 0], "xoprob": [h, q, q, "1/8"],
+                        "rnd": [[["3/4", 0, "3/4", "3/4"], [q, q, q, q]], [[q, "3/4", 0, "3/4"], ["3/4", "3/4", 0, 0]]]})
+            # several calls on the same arrays and the same generator: fresh draws every time, inputs untouched
+            out.append({"kind": "scripted", "impl": impl, "fn": "meiosis", "gen": "Generator", "repeat": 3,
+                        "geno": _geno(2, 3, 11), "sel": [1, 0], "xoprob": [h, q, q],
+                        "rnd": [[[q, "3/4", 0], ["3/4", 0, "3/4"]], [["3/4", "3/4", "3/4"], [q, q, q]],
+                                [[q, 0, "3/4"], [0, 0, 0]]]})
+            out.append({"kind": "scripted", "impl": impl, "fn": "mate", "gen": "RandomState", "repeat": 2,
+                        "geno": _geno(2, 3, 40), "mgeno": _geno(2, 3, 80), "sel": [0, 1], "msel": [1, 1],
+                        "xoprob": [h, q, h],
+                        "rnd": [[[q, "3/4", 0], ["3/4", 0, "3/4"]], [["3/4", "3/4", q], [q, q, "3/4"]],
+                                [[q, 0, "3/4"], [0, 0, 0]], [["3/4", 0, q], [q, "3/4", "3/4"]]]})
+            # probabilities and draws at the magnitudes of tolerance-style comparisons
+            t27, t17 = Fraction(1, 2 ** 27), Fraction(1, 2 ** 17)
+            hp = Fraction(1, 2) + Fraction(1, 2 ** 30)
+            out.append({"kind": "scripted", "impl": impl, "fn": "meiosis", "gen": "MT19937-Generator",
+                        "geno": _geno(1, 4, 21), "sel": [0, 0, 0],
+                        "xoprob": canon.enc([hp, t27, t17, 1 - Fraction(1, 2 ** 20)]),
+                        "rnd": [canon.enc([[Fraction(1, 2), 0, t17 - EPS, 1 - Fraction(1, 2 ** 20) - Fraction(1, 2 ** 34)],
+                                           [hp, t27 / 2, t17 + Fraction(1, 2 ** 34), 1 - Fraction(1, 2 ** 21)],
+                                           [hp - Fraction(1, 2 ** 34), t27 * 2, t17 / 2, 1 - EPS]])]})
+            # argument forms: negative indices, small-integer index dtypes, Fortran / strided arrays
+            out.append({"kind": "scripted", "impl": impl, "fn": "mate", "gen": "Generator",
+                        "geno": _geno(3, 4, 5), "mgeno": _geno(2, 4, 77), "sel": [-1, 0, -3], "msel": [-2, 1, -1],
+                        "xoprob": [h, q, q, h],
+                        "form": {"order": "F", "sel": "int8", "xo": "strided", "gdtype": "int16"},
+                        "rnd": [[[q, "3/4", 0, "3/4"], ["3/4", 0, "3/4", q], [0, 0, 0, 0]],
+                                [["3/4", "3/4", 0, q], [q, q, "3/4", "3/4"], [q, "3/4", "3/4", 0]]]})
+            out.append({"kind": "scripted", "impl": impl, "fn": "meiosis", "gen": "RandomState",
+                        "geno": _geno(3, 4, 9, [[], [1], []]), "sel": [2, 1, 0], "xoprob": [h, q, "1/8", h],
+                        "form": {"order": "strided_m", "sel": "int32", "xo": "float32", "gdtype": "int64"},
+                        "rnd": [[[q, "3/4", 0, "3/4"], ["3/4", 0, "3/4", q], [0, 0, 0, 0]]]})
+            out.append({"kind": "scripted", "impl": impl, "fn": "dh", "gen": "Generator",
+                        "geno": _geno(3, 3, 19), "sel": [2, 0], "xoprob": [h, q, q],
+                        "form": {"order": "strided", "sel": "int16", "xo": "contig", "gdtype": "int8"},
+                        "rnd": [[[q, "3/4", 0], ["3/4", 0, 0]]]})
+        # sizes past internal constants
+        rb = random.Random(777)
+        out.append(self._big_case(rb, "mat", "meiosis", m=8200, nsel=2, ntaxa=2))
+        out.append(self._big_case(rb, "dense", "mate", m=8200, nsel=2, ntaxa=2))
+        out.append(self._big_case(rb, "mat", "dh", m=1030, nsel=3, ntaxa=2))
+        out.append(self._big_case(rb, "mat", "meiosis", m=1030, nsel=2, ntaxa=2, many=True))
+        out.append(self._big_case(rb, "dense", "mate", m=1030, nsel=2, ntaxa=2, many=True))
+        out.append(self._big_case(rb, "mat", "meiosis", m=70000, nsel=2, ntaxa=1))
+        out.append(self._big_case(rb, "dense", "meiosis", m=40000, nsel=2, ntaxa=1))
+        out.append(self._big_case(rb, "dense", "meiosis", m=2, nsel=1030, ntaxa=3))
+        out.append(self._big_case(rb, "mat", "mate", m=2, nsel=4100, ntaxa=3))
+        out.append(self._big_case(rb, "dense", "dh", m=2, nsel=9000, ntaxa=2))
+        out.append(self._big_case(rb, "mat", "meiosis", m=3, nsel=6, ntaxa=130))
+        out.append(self._big_case(rb, "dense", "dh", m=3, nsel=6, ntaxa=260))
+        # the protocols with selfing generations, partly inbred founders, two calls on one object
+        for i, p in enumerate(PROTOS):
+            np_ = NPARENT[p]
+            xc = [list(range(np_)), [4 - k for k in range(np_)]] if np_ < 4 else [[0, 1, 2, 3], [4, 3, 1, 0]]
+            out.append({"kind": "protocol", "proto": p, "gen": "Generator" if i % 2 else "RandomState", "seed": 23 + i,
+                        "ntaxa": 5, "xconfig": xc, "nmating": [1, 2], "nprogeny": [3, 2], "nself": 1,
+                        "xoprob": [h, q, "1/8", h, "3/8", q]})
+            out.append({"kind": "protocol", "proto": p, "gen": "Generator", "seed": 61 + i, "ntaxa": 5,
+                        "xconfig": xc[:1], "nmating": 2, "nprogeny": 2, "nself": 2 + (i % 2), "ncall": 2,
+                        "homo": [[0, 1], [2], [], [1, 2, 3], [4]], "xoprob": [h, q, q, h, q],
+                        "xoprob2": [q, h, "3/4", 0, h], "edit_mode": "inplace" if i % 2 else "assign"})
+        out.append({"kind": "protocol", "proto": "TwoWayCross", "gen": "Generator", "seed": 3, "ntaxa": 2,
+                    "xconfig": [[0, 1]] * 3, "nmating": 1, "nprogeny": [1, 2, 1], "nself": 1, "xoprob": [h, q]})
+        # more than 127 / 255 taxa: indices past the int8 / uint8 range
+        out.append({"kind": "protocol", "proto": "ThreeWayCross", "gen": "Generator", "seed": 78, "ntaxa": 260,
+                    "xconfig": [[259, 128, 3], [127, 257, 131], [-1, 200, -132]], "nmating": [1, 2, 1],
+                    "nprogeny": 2, "nself": 1, "xoprob": [h, q, q]})
+        # more crosses than 1024
+        out.append({"kind": "protocol", "proto": "TwoWayDHCross", "gen": "Generator", "seed": 77, "ntaxa": 3,
+                    "xconfig": [[i % 3, (i + 1 + i // 3 % 2) % 3] for i in range(1030)], "nmating": 1, "nprogeny": 1,
+                    "nself": 1, "xoprob": [h, q]})
+        out.append({"kind": "embv", "gen": "RandomState", "seed": 8, "ntaxa": 3, "homo": [[1, 2], [0], [0, 1, 2, 3]],
+                    "xoprob": [h, q, q, q, h], "nprogeny": [3, 2, 2], "nrep": [2, 1, 1]})
+        # crossover probabilities from a map: grouped but unsorted labels, offsets, tiny gaps, further entry points
+        chr8 = [1, 1, 1, 2, 2, 3, 3, 3]
+        pos8 = [0, "1/8", h, 0, q, q, h, 1]
+        out += [
+            {"kind": "xoprob", "fn": "haldane", "via": "rprob1g", "chr": [7, 7, 3, 3, 3, 5], "pos": [0, h, q, h, 1, "1/8"]},
+            {"kind": "xoprob", "fn": "kosambi", "via": "extended", "chr": [9, 2, 2, 4, 1], "pos": [h, 0, 0, 2, 1]},
+            {"kind": "xoprob", "fn": "haldane", "via": "rprob1g", "chr": [1, 1, 1, 2, 2],
+             "pos": canon.enc([25000, 25000 + Fraction(1, 2 ** 27), 25000 + Fraction(1, 8), 25000,
+                               25000 + Fraction(1, 2 ** 20)])},
+            {"kind": "xoprob", "fn": "haldane", "via": "rprob1p", "chr": chr8, "pos": pos8},
+            {"kind": "xoprob", "fn": "kosambi", "via": "interp-ext", "chr": chr8, "pos": pos8,
+             "perm": [3, 0, 7, 1, 5, 2, 6, 4]},
+            {"kind": "xoprob", "fn": "haldane", "via": "interp-gmat", "chr": chr8, "pos": pos8,
+             "perm": [7, 6, 5, 4, 3, 2, 1, 0]},
+            {"kind": "xoprob", "fn": "haldane", "via": "interp", "chr": chr8, "pos": pos8, "ungrouped": True},
+            {"kind": "xoprob", "fn": "kosambi", "via": "interp", "chr": chr8, "pos": pos8, "prime": True},
+            {"kind": "xoprob", "fn": "haldane", "via": "rprob1g", "chr": chr8, "pos": pos8, "prime": True},
+            {"kind": "xoprob", "fn": "haldane", "via": "interp-ext", "chr": chr8, "pos": pos8, "prime": True},
+        ]
         return out
 
     def _stat_cases(self, n):
@@ -343,6 +570,27 @@ class C02(Prop):
             else:
                 c["xoprob"] = canon.enc(v1 if i % 3 == 1 else v2)
             out.append(c)
+        # round 3: partly inbred parents (homozygous start, homozygous runs between heterozygous markers) ...
+        seed = 9100
+        for tgt, xo, homo in [("dense_meiosis", v1, [0, 2, 3, 5]), ("mat_meiosis", v1, [1, 2, 6]),
+                              ("dense_dh", v2, [0, 1, 4]), ("mat_mate", v3 + v3, [0, 3, 4])]:
+            seed += 1
+            out.append({"kind": "statistical-support", "target": tgt, "gen": "Generator", "seed": seed,
+                        "n": max(n // 2, 4000), "xoprob": canon.enc(xo), "homo": homo})
+        out.append({"kind": "statistical-support", "target": "embv", "gen": "Generator", "seed": 9120,
+                    "n": max(n // 4, 4000), "xoprob": canon.enc(v1), "homo": [2, 5]})
+        # ... and the protocols with one selfing generation (copy of the hybrid read from the founder labels)
+        for i, p in enumerate(["TwoWayCross", "ThreeWayCross", "FourWayCross"]):
+            seed += 1
+            out.append({"kind": "statistical-support", "target": "proto:" + p, "nself": 1,
+                        "gen": "Generator" if i % 2 else "RandomState", "seed": seed, "n": max(n // 4, 3000),
+                        "xoprob": canon.enc(v1 if i % 2 else v2)})
+        # ... and gametes two meioses away from the labelled individual (closed form `pairProb2`)
+        v4 = [h, Fraction(1, 10), Fraction(3, 10)]
+        for p, ns, xo in [("SelfCross", 1, v1), ("TwoWayDHCross", 1, v4), ("TwoWayCross", 2, v3)]:
+            seed += 1
+            out.append({"kind": "statistical-support", "target": "proto:" + p, "nself": ns, "gen2": True,
+                        "gen": "Generator", "seed": seed, "n": max(n // 4, 3000), "xoprob": canon.enc(xo)})
         return out
 
     def exhaustive(self, tier):
@@ -359,12 +607,14 @@ class C02(Prop):
         out = []
         for _ in range(n):
             r = rng.random()
-            if r < 0.62:
+            if r < 0.56:
                 out.append(self._gen_scripted(rng))
-            elif r < 0.80:
+            elif r < 0.78:
                 out.append(self._gen_protocol(rng))
-            elif r < 0.84:
+            elif r < 0.83:
                 out.append(self._gen_embv(rng))
+            elif r < 0.84:
+                out.append(self._gen_big(rng, tier))
             else:
                 out.append(self._gen_xoprob(rng))
         return out
@@ -374,22 +624,98 @@ class C02(Prop):
         m = rng.choice([1, 2, 3, 4, 5, 6, 8, 12])
         nsel = rng.choice([1, 2, 2, 3, 4, 6])
         fn = rng.choice(["meiosis", "meiosis", "dh", "mate"])
-        xo = _xo_vector(rng, m)
+        xo = _xo_vector(rng, m, "tiny" if rng.random() < 0.3 else None)
         off = rng.randrange(256)
+        homo = _gen_homo(rng, ntaxa, m) if rng.random() < 0.45 else None
+        rep = rng.choice([2, 3]) if rng.random() < 0.15 else 1
         case = {"kind": "scripted", "impl": rng.choice(["mat", "dense"]), "fn": fn,
                 "gen": rng.choice(["Generator", "RandomState", "MT19937-Generator", "MT19937-RandomState"]),
-                "geno": _geno(ntaxa, m, off), "sel": [rng.randrange(ntaxa) for _ in range(nsel)],
+                "geno": _geno(ntaxa, m, off, homo), "sel": [rng.randrange(ntaxa) for _ in range(nsel)],
                 "xoprob": canon.enc(xo)}
-        ncall = 2 if fn == "mate" else 1
+        ncall = (2 if fn == "mate" else 1) * rep
         case["rnd"] = [canon.enc([[_draw(rng, x) for x in xo] for _ in range(nsel)]) for _ in range(ncall)]
+        if rep > 1:
+            case["repeat"] = rep
+            if rng.random() < 0.6:
+                case["edit"] = {}
+                if rng.random() < 0.7:
+                    case["edit"]["xoprob"] = canon.enc(_xo_vector(rng, m))
+                if rng.random() < 0.6:
+                    case["edit"]["geno"] = _geno(ntaxa, m, (off + 37) % 256, _gen_homo(rng, ntaxa, m))
+                if not case["edit"]:
+                    del case["edit"]
+        mt = ntaxa
         if fn == "mate":
             mt = rng.choice([1, 2, 3])
-            case["mgeno"] = _geno(mt, m, (off + 100) % 256)
+            case["mgeno"] = _geno(mt, m, (off + 100) % 256, _gen_homo(rng, mt, m) if homo else None)
             case["msel"] = [rng.randrange(mt) for _ in range(nsel)]
-        if rng.random() < 0.06:
+        if rng.random() < 0.35:
+            # argument forms that numpy accepts and the documentation does not exclude
+            form = {"order": rng.choice(["C", "F", "strided", "strided_m"]),
+                    "sel": rng.choice(["int64", "int8", "int32", "int16"]),
+                    "xo": rng.choice(["contig", "strided", "float32"]),
+                    "gdtype": rng.choice(["int8", "int16", "int64"])}
+            if form["xo"] == "float32" and any(Fraction(float(numpy.float32(_f(x)))) != x for x in xo):
+                form["xo"] = "strided"
+            case["form"] = form
+        c = rng.random()
+        if c < 0.15:
+            # numpy index semantics: a negative entry of sel counts from the end of the taxa axis
+            for k in range(nsel):
+                if rng.random() < 0.6:
+                    case["sel"][k] -= ntaxa
+            if fn == "mate":
+                for k in range(nsel):
+                    if rng.random() < 0.4:
+                        case["msel"][k] -= mt
+        elif c < 0.21:
             # malformed stream: one index of sel is outside the population
             case["sel"][rng.randrange(nsel)] = ntaxa + rng.randrange(3)
             case["reject"] = True
+        return case
+
+    def _gen_big(self, rng, tier):
+        """sizes past internal constants (blocks of 1024 .. 8192 markers, 1024 / 4096 gametes, 127 taxa)"""
+        c = rng.random()
+        impl = rng.choice(["mat", "dense"])
+        fn = rng.choice(["meiosis", "meiosis", "dh", "mate"])
+        if c < 0.15:
+            return self._big_case(rng, impl, fn, m=rng.choice([200, 420, 1030]) if tier == "quick" else
+                                  rng.choice([1030, 4100]), nsel=2, ntaxa=2, many=True)
+        if c < 0.5:
+            m = rng.choice([1030, 2050, 4100, 8200]) if tier == "quick" else rng.choice([4100, 8200, 16400, 33000])
+            return self._big_case(rng, impl, fn, m=m, nsel=2, ntaxa=2)
+        if c < 0.8:
+            return self._big_case(rng, impl, fn, m=2, nsel=rng.choice([1030, 4100, 9000]) if tier == "quick"
+                                  else rng.choice([4100, 9000, 70000]), ntaxa=3)
+        return self._big_case(rng, impl, fn, m=3, nsel=6, ntaxa=rng.choice([130, 260]))
+
+    @staticmethod
+    def _big_case(rng, impl, fn, m, nsel, ntaxa, seed=None, many=False):
+        nhit = lambda: rng.choice([1, 2, 3, 5])
+        def hits():
+            rows = []
+            for i in range(nsel):
+                k = min(nhit(), m)
+                h = sorted(rng.sample(range(m), k))
+                if i == 0 and m > 6:
+                    h = [rng.randrange(6)]          # one early hit: on copy 1 across every later block boundary
+                if many:
+                    # hundreds of crossovers in one gamete (past any fixed-size buffer of crossover positions)
+                    h = [j for j in range(m) if (j % 3 == i % 3) or rng.random() < 0.05]
+                rows.append(h)
+            return rows
+        case = {"kind": "big", "impl": impl, "fn": fn, "gen": rng.choice(["Generator", "RandomState"]),
+                "m": m, "ntaxa": ntaxa,
+                "sel": [rng.randrange(ntaxa) if ntaxa <= 127 else rng.choice([ntaxa - 1 - rng.randrange(3), 127, 128,
+                                                                               rng.randrange(ntaxa)])
+                        for _ in range(nsel)],
+                "pat": canon.enc([rng.choice([Fraction(1, 4), Fraction(1, 8), Fraction(1, 16), Fraction(1, 2)])
+                                  for _ in range(rng.choice([3, 5, 7]))]),
+                "hits": hits(), "homo_mod": rng.choice([0, 0, 3])}
+        if fn == "mate":
+            case["mhits"] = hits()
+            case["msel"] = [rng.randrange(ntaxa) for _ in range(nsel)]
         return case
 
     def _gen_protocol(self, rng):
@@ -405,42 +731,110 @@ class C02(Prop):
         nprogeny = rng.choice([1, 2, 4]) if scalar else [rng.choice([1, 2, 3]) for _ in range(ncross)]
         m = rng.choice([2, 3, 5, 8])
         xo = _xo_vector(rng, m)
-        return {"kind": "protocol", "proto": p, "gen": rng.choice(["Generator", "RandomState"]),
+        if not scalar and ncross >= 2 and rng.random() < 0.15:
+            (nmating if rng.random() < 0.5 else nprogeny)[rng.randrange(ncross)] = 0     # a cross without progeny
+        if rng.random() < 0.15:
+            xconfig = [[t - ntaxa if rng.random() < 0.5 else t for t in row] for row in xconfig]   # numpy indices
+        case = {"kind": "protocol", "proto": p, "gen": rng.choice(["Generator", "RandomState"]),
                 "seed": rng.randrange(1 << 30), "ntaxa": ntaxa, "xconfig": xconfig, "nmating": nmating,
-                "nprogeny": nprogeny, "nself": rng.choice([0, 0, 0, 1]), "xoprob": canon.enc(xo)}
+                "nprogeny": nprogeny, "nself": rng.choice([0, 0, 1, 1, 2, 3]), "xoprob": canon.enc(xo)}
+        if rng.random() < 0.3:
+            case["homo"] = _gen_homo(rng, ntaxa, m)
+        if rng.random() < 0.2:
+            case["ncall"] = 2
+            if rng.random() < 0.7:
+                case["xoprob2"] = canon.enc(_xo_vector(rng, m))
+                case["edit_mode"] = rng.choice(["assign", "inplace"])
+        elif rng.random() < 0.35:
+            # scripted draws through the whole protocol: ties, one ulp either side, tolerance-range values,
+            # probabilities of 2^-27 .. 1/2 +- 2^-30
+            xo = _xo_vector(rng, m, "tiny")
+            case["xoprob"] = canon.enc(xo)
+            nm_a = [nmating] * ncross if isinstance(nmating, int) else nmating
+            np_a = [nprogeny] * ncross if isinstance(nprogeny, int) else nprogeny
+            M, N = sum(nm_a), sum(a * b for a, b in zip(nm_a, np_a))
+            case["gen"] = "Scripted"
+            case["rnd"] = [canon.enc([[_draw(rng, x) for x in xo] for _ in range(rows)])
+                           for rows in _proto_rows(p, M, N, case["nself"])]
+            del case["seed"]
+        return case
 
     def _gen_embv(self, rng):
         ntaxa = rng.choice([1, 2, 3, 4])
         m = rng.choice([2, 3, 5, 8])
         scalar = rng.random() < 0.4
-        return {"kind": "embv", "gen": rng.choice(["Generator", "RandomState"]), "seed": rng.randrange(1 << 30),
+        case = {"kind": "embv", "gen": rng.choice(["Generator", "RandomState"]), "seed": rng.randrange(1 << 30),
                 "ntaxa": ntaxa, "xoprob": canon.enc(_xo_vector(rng, m)),
                 "nprogeny": rng.choice([1, 2, 4]) if scalar else [rng.choice([1, 2, 3, 5]) for _ in range(ntaxa)],
                 "nrep": rng.choice([1, 2]) if scalar else [rng.choice([1, 2, 3]) for _ in range(ntaxa)]}
+        if rng.random() < 0.5:
+            case["homo"] = _gen_homo(rng, ntaxa, m)
+        return case
 
     def _gen_xoprob(self, rng):
-        nchr = rng.choice([1, 2, 3, 5])
-        via = rng.choice(["rprob1g", "extended", "interp"])
-        labels = sorted(rng.sample(range(1, 30), nchr))
+        nchr = rng.choice([1, 2, 3, 5, 5, 3, 2, 40, 300] if rng.random() < 0.25 else [1, 2, 3, 5])
+        via = rng.choice(["rprob1g", "rprob1g", "extended", "interp", "rprob1p", "interp-ext", "interp-gmat"])
+        spline = via not in ("rprob1g", "extended")        # these build an interpolation spline on the knots
+        labels = rng.sample(range(1, 30 if nchr < 20 else 500), nchr)
+        if spline or rng.random() < 0.5:
+            labels.sort()                                   # otherwise: grouped but not sorted
+        # a large common offset of the map positions (kept moderate where positions pass through a spline)
+        base = rng.choice([0, 0, 100]) if spline else rng.choice([0, 0, 0, 1000, 25000])
+        steps = [1, 2, 4, 8, 16, 24] if spline else [0, 1, 2, 4, 8, 16, 24]
         chr_, pos = [], []
         for c in labels:
-            k = rng.choice([2, 3, 4]) if via == "interp" else rng.choice([1, 1, 2, 3, 5])
-            g = Fraction(rng.randrange(0, 8), 16)
+            k = rng.choice([2, 3, 4]) if spline else rng.choice([1, 1, 2, 3, 5])
+            g = base + Fraction(rng.randrange(0, 8), 16)
             for _ in range(k):
                 chr_.append(c)
                 pos.append(g)
-                # interp builds a spline on the knots: keep them strictly increasing there
-                g += Fraction(rng.choice([1, 2, 4, 8, 16, 24] if via == "interp" else [0, 1, 2, 4, 8, 16, 24]), 32)
-        return {"kind": "xoprob", "fn": rng.choice(["haldane", "haldane", "kosambi"]), "via": via,
+                # a spline needs strictly increasing knots
+                if rng.random() < 0.15:
+                    g += Fraction(1, 2 ** 20) if spline else rng.choice([Fraction(1, 2 ** 27), Fraction(1, 2 ** 20)])
+                else:
+                    g += Fraction(rng.choice(steps), 32)
+        case = {"kind": "xoprob", "fn": rng.choice(["haldane", "haldane", "kosambi"]), "via": via,
                 "chr": chr_, "pos": canon.enc(pos)}
+        if via.startswith("interp") and rng.random() < 0.5:
+            perm = list(range(len(chr_)))
+            rng.shuffle(perm)
+            case["perm"] = perm                             # markers presented in this order; group_vrnt sorts
+        if via == "interp" and rng.random() < 0.1:
+            case["ungrouped"] = True                        # interp_xoprob must reject a matrix that is not grouped
+        elif rng.random() < 0.3:
+            case["prime"] = True                            # the same objects were queried / filled before
+        return case
 
     # ------------------------------------------------------------------ implementation
     @staticmethod
     def _k(case):
         return {"statistical-support": "stat"}.get(case["kind"], case["kind"])
 
+    # Self-test economy: while an in-memory mutant is active, a case the mutant cannot reach (another source
+    # twin, another protocol, the map side for a meiosis mutant, ...) is not re-run; its verdict on the unmutated
+    # code is returned instead.  This can only lose kills, never create one.
+    _scope = None
+    _verdicts = {}
+
+    @staticmethod
+    def _ckey(case):
+        return json.dumps({k: v for k, v in case.items() if not k.startswith("_")}, sort_keys=True, default=str)
+
     def run_impl(self, case):
+        if self._scope is not None and not self._scope(case):
+            key = self._ckey(case)
+            if key in self._verdicts:
+                return {"__unreached__": key}
         return getattr(self, "_impl_" + self._k(case))(case)
+
+    @contextlib.contextmanager
+    def _scoped(self, pred, ctx):
+        self._scope = pred
+        try:
+            with ctx:
+                yield
+        finally:
+            self._scope = None
 
     @staticmethod
     def _fn(impl, fn):
@@ -449,40 +843,133 @@ class C02(Prop):
             return {"meiosis": mutil.mat_meiosis, "dh": mutil.mat_dh, "mate": mutil.mat_mate}[fn]
         return {"meiosis": cmate.dense_meiosis, "dh": cmate.dense_dh, "mate": cmate.dense_cross}[fn]
 
+    @staticmethod
+    def _mk_geno(g3, m, form):
+        """the genotype array in the memory layout / dtype the case asks for"""
+        ntaxa = len(g3[0])
+        a = numpy.array(g3, dtype=form.get("gdtype", "int8")).reshape(2, ntaxa, m)
+        order = form.get("order", "C")
+        if order == "F":
+            a = numpy.asfortranarray(a)
+        elif order == "strided":              # every second taxon of a larger array
+            big = numpy.full((2, 2 * ntaxa + 1, m), 99, dtype=a.dtype)
+            big[:, 1::2, :] = a
+            a = big[:, 1::2, :]
+        elif order == "strided_m":            # every second marker of a larger array
+            big = numpy.full((2, ntaxa, 2 * m), 99, dtype=a.dtype)
+            big[:, :, ::2] = a
+            a = big[:, :, ::2]
+        return a
+
+    @staticmethod
+    def _mk_xo(xo, form):
+        a = numpy.array([_f(v) for v in xo], dtype=float)
+        kind = form.get("xo", "contig")
+        if kind == "strided":
+            big = numpy.full(2 * len(a), 0.75)
+            big[::2] = a
+            a = big[::2]
+        elif kind == "float32":
+            a = a.astype("float32")
+        return a
+
     def _impl_scripted(self, case):
         f = self._fn(case["impl"], case["fn"])
         m = len(case["xoprob"])
-        geno = numpy.array(case["geno"], dtype="int8").reshape(2, len(case["geno"][0]), m)
-        sel = numpy.array(case["sel"], dtype=int)
-        xo = numpy.array([_f(v) for v in case["xoprob"]], dtype=float)
-        flat = [Fraction(v) for mtx in case["rnd"] for row in mtx for v in row]
-        if case["gen"].startswith("MT19937") and len(flat) <= MT_MAX_DOUBLES:
+        form = case.get("form", {})
+        dden = case.get("dden", 1)
+        geno = self._mk_geno(case["geno"], m, form)
+        sel = numpy.array(case["sel"], dtype=form.get("sel", "int64"))
+        xo = self._mk_xo(case["xoprob"], form)
+        nflat = sum(len(row) for mtx in case["rnd"] for row in mtx)
+        if case["gen"].startswith("MT19937") and nflat <= MT_MAX_DOUBLES and dden == 1:
             # a genuine numpy generator whose crafted state emits exactly the scripted values
+            flat = [Fraction(v) for mtx in case["rnd"] for row in mtx for v in row]
             g = (CraftedGenerator if case["gen"] == "MT19937-Generator" else CraftedRandomState)(flat)
         else:
-            g = (ScriptedRandomState if case["gen"].endswith("RandomState") else ScriptedGenerator)(case["rnd"])
+            flat = None
+            g = (ScriptedRandomState if case["gen"].endswith("RandomState") else ScriptedGenerator)(case["rnd"], dden)
+        mgeno = msel = None
+        if case["fn"] == "mate":
+            mgeno = self._mk_geno(case["mgeno"], m, form)
+            msel = numpy.array(case["msel"], dtype=form.get("sel", "int64"))
+        snap = [x.copy() for x in (geno, sel, xo) + ((mgeno, msel) if mgeno is not None else ())]
+        outs = []
+        edit = case.get("edit")
         try:
-            if case["fn"] == "mate":
-                mgeno = numpy.array(case["mgeno"], dtype="int8").reshape(2, len(case["mgeno"][0]), m)
-                out = f(geno, mgeno, sel, numpy.array(case["msel"], dtype=int), xo, g)
-            else:
-                out = f(geno, sel, xo, g)
+            for c in range(case.get("repeat", 1)):
+                if edit and c == 1:
+                    # after the first call the SAME array objects are edited in place (a cache keyed by the
+                    # identity of its arguments goes stale here)
+                    if "xoprob" in edit:
+                        xo[:] = numpy.array([_f(v) for v in edit["xoprob"]], dtype=xo.dtype)
+                    if "geno" in edit:
+                        geno[:] = numpy.array(edit["geno"], dtype=geno.dtype).reshape(geno.shape)
+                    snap = [x.copy() for x in (geno, sel, xo) + ((mgeno, msel) if mgeno is not None else ())]
+                if case["fn"] == "mate":
+                    out = f(geno, mgeno, sel, msel, xo, g)
+                else:
+                    out = f(geno, sel, xo, g)
+                outs.append(numpy.array(out, copy=True))      # a later call must not be able to alter it
         except IndexError as e:
             if not case.get("reject"):
                 raise
             return {"rejected": canon.exc_tag(e), "calls": g.log}
-        obs = {"out": canon.enc(out), "shape": list(out.shape), "calls": g.log}
+        now = (geno, sel, xo) + ((mgeno, msel) if mgeno is not None else ())
+        obs = {"out": canon.enc(outs[0]), "outs": [canon.enc(o) for o in outs], "shape": list(outs[0].shape),
+               "calls": g.log,
+               "inputs_untouched": all(a.shape == b.shape and bool((a == b).all()) for a, b in zip(snap, now))}
         if hasattr(g, "draws"):
             got = [Fraction(float(v)) for d in g.draws for v in numpy.ravel(d)]
-            if got != flat:
-                raise RuntimeError("harness: crafted MT19937 state did not reproduce the scripted draws")
+            # the crafted state emits exactly the scripted values, in order, when the code draws what the model
+            # says it draws (one matrix per meiosis); otherwise the call pattern differs: reported through `calls`
             obs["genuine_generator"] = True
+            obs["drew_scripted_values"] = got == flat[:len(got)]
         return obs
 
-    def _pgmat(self, ntaxa, xo, chr_=None, pos=None):
+    # compact description of a large scripted case -> the scripted case itself
+    _big_cache = {}
+
+    def _expand_big(self, case):
+        key = json.dumps(case, sort_keys=True)
+        hit = self._big_cache.get(key)
+        if hit is not None:
+            return hit
+        m, ntaxa = case["m"], case["ntaxa"]
+        pat = [Fraction(v) for v in canon.dec(case["pat"])]
+        xo = [pat[j % len(pat)] for j in range(m)]
+        if m:
+            xo[0] = Fraction(1, 2)
+        hm = case.get("homo_mod", 0)
+        homo = [[j for j in range(m) if j % hm != 0] for _ in range(ntaxa)] if hm else None
+
+        def draws(rows):
+            out = []
+            for h in rows:
+                r = [15] * m                    # 15/16: above every stored probability
+                for j in h:
+                    r[j] = 0                    # 0 < xo[j]: a crossover
+                out.append(r)
+            return out
+        sc = {"kind": "scripted", "impl": case["impl"], "fn": case["fn"], "gen": case["gen"],
+              "geno": _geno(ntaxa, m, 0, homo), "sel": case["sel"], "xoprob": canon.enc(xo),
+              "rnd": [draws(case["hits"])], "dden": 16}
+        if case["fn"] == "mate":
+            sc["mgeno"] = _geno(ntaxa, m, 64, homo)
+            sc["msel"] = case["msel"]
+            sc["rnd"].append(draws(case["mhits"]))
+        if len(self._big_cache) > 64:
+            self._big_cache.clear()
+        self._big_cache[key] = sc
+        return sc
+
+    def _impl_big(self, case):
+        return self._impl_scripted(self._expand_big(case))
+
+    def _pgmat(self, ntaxa, xo, chr_=None, pos=None, homo=None):
         dpgm = _mods()[5]
         m = len(xo)
-        geno = numpy.array(_geno(ntaxa, m), dtype="int8").reshape(2, ntaxa, m)
+        geno = numpy.array(_geno(ntaxa, m, 0, homo), dtype="int8").reshape(2, ntaxa, m)
         pg = dpgm.DensePhasedGenotypeMatrix(
             geno, taxa=numpy.array(["t%02d" % i for i in range(ntaxa)], dtype=object),
             taxa_grp=numpy.arange(ntaxa),
@@ -534,45 +1021,98 @@ class C02(Prop):
             labs.append(second)
         return labs, ok
 
-    def _run_proto(self, proto, gen, seed, ntaxa, xconfig, nmating, nprogeny, nself, xo, chr_=None):
+    @staticmethod
+    def _labels_self1(proto, xconfig_rows, mat):
+        """after ONE selfing generation of a two-/three-/four-way hybrid: which copy of the hybrid each cell of
+        the selfed progeny was read from (the hybrid's copy 0 and copy 1 descend from disjoint founders).
+        Both chromosome copies of a progeny are gametes of the same hybrid under different draws."""
+        par = numpy.asarray(xconfig_rows)
+        labs, ok = [], True
+        for c in range(2):
+            t, _ = _decode(mat[c])
+            if proto == "TwoWayCross":
+                zero = (t == par[:, 0][:, None])
+                one = (t == par[:, 1][:, None])
+            elif proto == "ThreeWayCross":
+                zero = (t == par[:, 0][:, None])
+                one = (t == par[:, 1][:, None]) | (t == par[:, 2][:, None])
+            else:
+                zero = (t == par[:, 2][:, None]) | (t == par[:, 3][:, None])
+                one = (t == par[:, 0][:, None]) | (t == par[:, 1][:, None])
+            ok = ok and bool((zero ^ one).all())
+            labs.append(one)
+        return labs, ok
+
+    def _run_proto(self, proto, gen, seed, ntaxa, xconfig, nmating, nprogeny, nself, xo, chr_=None, homo=None,
+                   ncall=1, xo2=None, edit_mode="assign"):
+        """-> ([progeny matrix per call], recorder, parents of each progeny row, M, N, [draw-matrix count per call])"""
         protos = _mods()[6]
-        g = (RecGenerator if gen == "Generator" else RecRandomState)(seed)
-        pg = self._pgmat(ntaxa, xo, chr_)
+        if gen == "Scripted":
+            g = ScriptedGenerator(seed)              # `seed` carries the scripted draw matrices
+            g.draws = g.handed
+        else:
+            g = (RecGenerator if gen == "Generator" else RecRandomState)(seed)
+        pg = self._pgmat(ntaxa, xo, chr_, homo=homo)
         xc = numpy.array(xconfig, dtype=int).reshape(len(xconfig), NPARENT[proto])
         nm = nmating if isinstance(nmating, int) else numpy.array(nmating, dtype=int)
         npg = nprogeny if isinstance(nprogeny, int) else numpy.array(nprogeny, dtype=int)
-        out = protos[proto](rng=g).mate(pg, xc, nm, npg, nself=nself)
+        prot = protos[proto](rng=g)
+        outs, ndraws = [], []
+        for c in range(ncall):
+            before = len(g.draws)
+            if c == 1 and xo2 is not None:
+                # the crossover probabilities of the SAME matrix object change between the two calls
+                if edit_mode == "inplace":
+                    pg.vrnt_xoprob[:] = numpy.array(xo2, dtype=float)
+                else:
+                    pg.vrnt_xoprob = numpy.array(xo2, dtype=float)
+            outs.append(prot.mate(pg, xc, nm, npg, nself=nself))
+            ndraws.append(len(g.draws) - before)
         nm_a = numpy.repeat(nm, len(xc)) if isinstance(nm, int) else nm
         np_a = numpy.repeat(npg, len(xc)) if isinstance(npg, int) else npg
-        rows = numpy.repeat(xc, nm_a * np_a, axis=0)
-        return out, g, rows, int(nm_a.sum()), int((nm_a * np_a).sum())
+        rows = numpy.repeat(xc % ntaxa, nm_a * np_a, axis=0)      # numpy index semantics: -k means ntaxa - k
+        return outs, g, rows, int(nm_a.sum()), int((nm_a * np_a).sum()), ndraws
+
+    @staticmethod
+    def _draw_ints(d):
+        """a recorded draw matrix as integer numerators over 2^53 (exact: numpy's doubles in [0,1) are k/2^53)"""
+        return [[int(Fraction(float(v)) * (1 << 53)) for v in row] for row in numpy.asarray(d)]
 
     def _impl_protocol(self, case):
         xo = [_f(v) for v in case["xoprob"]]
-        out, g, rows, M, N = self._run_proto(case["proto"], case["gen"], case["seed"], case["ntaxa"],
-                                             case["xconfig"], case["nmating"], case["nprogeny"],
-                                             case["nself"], xo)
-        obs = {"calls": g.log, "M": M, "N": N, "shape": list(out.mat.shape)}
-        if case["nself"] == 0:
-            labs, ok = self._labels(case["proto"], rows, out.mat)
+        ncall = case.get("ncall", 1)
+        outs, g, rows, M, N, ndraws = self._run_proto(case["proto"], case["gen"],
+                                                      case["rnd"] if case["gen"] == "Scripted" else case["seed"],
+                                                      case["ntaxa"],
+                                                      case["xconfig"], case["nmating"], case["nprogeny"],
+                                                      case["nself"], xo, homo=case.get("homo"), ncall=ncall,
+                                                      xo2=[_f(v) for v in case["xoprob2"]] if "xoprob2" in case else None,
+                                                      edit_mode=case.get("edit_mode", "assign"))
+        obs = {"calls": g.log, "M": M, "N": N, "shape": list(outs[0].mat.shape), "ndraws": ndraws,
+               "mats": [canon.enc(o.mat) for o in outs],
+               "draws": [self._draw_ints(d) for d in g.draws],
+               "exact_grid": all(bool((numpy.asarray(d) * float(1 << 53) % 1.0 == 0).all()) for d in g.draws)}
+        if case["nself"] == 0 and not case.get("homo"):
+            labs, ok = self._labels(case["proto"], rows, outs[0].mat)
             obs["labels"] = [canon.enc(l) for l in labs]
             obs["observable"] = ok
-            obs["rnd"] = [canon.enc(d) for d in g.draws[-len(labs):]]
+            first = g.draws[:ndraws[0]]
+            obs["rnd"] = [self._draw_ints(d) for d in first[-len(labs):]]
         return obs
 
     def _impl_embv(self, case):
         embv, dalgm = _embv_mods()
         xo = [_f(v) for v in case["xoprob"]]
         m, nt = len(xo), case["ntaxa"]
-        pg = self._pgmat(nt, xo)
+        pg = self._pgmat(nt, xo, homo=case.get("homo"))
         gm = dalgm.DenseAdditiveLinearGenomicModel(beta=numpy.array([[1.0]]), u_misc=None, u_a=numpy.ones((m, 1)),
                                                    trait=numpy.array(["y"], dtype=object))
         g = (RecGenerator if case["gen"] == "Generator" else RecRandomState)(case["seed"])
         captured = []
         orig_dh, orig_rng = embv.dense_dh, embv.global_prng
 
-        def rec(geno, sel, xoprob, rng):
-            out = orig_dh(geno, sel, xoprob, rng)
+        def rec(geno, sel, xoprob, rng, *a, **k):
+            out = orig_dh(geno, sel, xoprob, rng, *a, **k)
             captured.append((numpy.array(sel).copy(), numpy.array(out).copy()))
             return out
         embv.dense_dh, embv.global_prng = rec, g
@@ -582,35 +1122,62 @@ class C02(Prop):
                                                                        as_arg(case["nrep"]))
         finally:
             embv.dense_dh, embv.global_prng = orig_dh, orig_rng
-        labels, ok = [], len(captured) == len(g.draws)
-        for sel, out in captured:
-            t, p = _decode(out[0])
-            ok = ok and bool((out[0] == out[1]).all()) and bool((t == sel[:, None]).all())
-            labels.append(canon.enc(p.astype(bool)))
-        return {"calls": g.log, "labels": labels, "rnd": [canon.enc(d) for d in g.draws], "observable": ok,
-                "sels": [s_.tolist() for s_, _ in captured], "shape": list(res.mat.shape)}
+        doubled = all(bool((out[0] == out[1]).all()) for _, out in captured)
+        return {"calls": g.log, "draws": [self._draw_ints(d) for d in g.draws],
+                "observable": bool(doubled and len(captured) == len(g.draws)), "doubled": bool(doubled),
+                "sels": [s_.tolist() for s_, _ in captured], "dh": [canon.enc(out) for _, out in captured],
+                "shape": list(res.mat.shape)}
 
-    def _map_xoprob(self, fn, via, chr_, pos):
+    def _map_xoprob(self, fn, via, chr_, pos, perm=None, ungrouped=False, prime=False):
         mutil, cmate, sgm, hal, kos, dpgm, protos = _mods()
         chr_a = numpy.array(chr_, dtype=int)
         gen = numpy.array([_f(v) for v in pos], dtype=float)
         phy = numpy.arange(1, len(chr_) + 1) * 10
-        gmap = sgm.StandardGeneticMap(chr_a, phy, gen)
         mf = (hal.HaldaneMapFunction if fn == "haldane" else kos.KosambiMapFunction)()
-        if via == "rprob1g":
-            return mf.rprob1g(gmap, chr_a, gen), gen
-        if via == "extended":
+        other = (kos.KosambiMapFunction if fn == "haldane" else hal.HaldaneMapFunction)()
+        if via in ("extended", "interp-ext"):
             import pybrops.popgen.gmap.ExtendedGeneticMap as egm
-            emap = egm.ExtendedGeneticMap(chr_a, phy, phy + 1, gen)
-            return mf.rprob1g(emap, chr_a, gen), gen
-        pg = dpgm.DensePhasedGenotypeMatrix(numpy.zeros((2, 1, len(chr_)), dtype="int8"),
-                                            vrnt_chrgrp=chr_a, vrnt_phypos=phy)
-        pg.group_vrnt()
+            gmap = egm.ExtendedGeneticMap(chr_a, phy, phy + 1, gen)
+        else:
+            gmap = sgm.StandardGeneticMap(chr_a, phy, gen)
+        if via in ("rprob1g", "extended"):
+            if prime:
+                # an earlier query of the same objects with other positions of the same shape, then an in-place
+                # edit of the queried array back to the real positions
+                q = gen * 0.5 + 0.125
+                mf.rprob1g(gmap, chr_a, q)
+                q[:] = gen
+                return mf.rprob1g(gmap, chr_a, q), gen
+            return mf.rprob1g(gmap, chr_a, gen), gen
+        if via == "rprob1p":
+            if prime:
+                mf.rprob1p(gmap, chr_a[::-1].copy(), phy[::-1].copy())
+            return mf.rprob1p(gmap, chr_a, phy), gen
+        ix = numpy.array(perm if perm is not None else range(len(chr_)), dtype=int)
+        if via == "interp-gmat":
+            import pybrops.popgen.gmat.DenseGenotypeMatrix as dgm
+            pg = dgm.DenseGenotypeMatrix(numpy.zeros((1, len(chr_)), dtype="int8"),
+                                         vrnt_chrgrp=chr_a[ix], vrnt_phypos=phy[ix])
+        else:
+            pg = dpgm.DensePhasedGenotypeMatrix(numpy.zeros((2, 1, len(chr_)), dtype="int8"),
+                                                vrnt_chrgrp=chr_a[ix], vrnt_phypos=phy[ix])
+        if not ungrouped:
+            pg.group_vrnt()
+        if prime:
+            # the matrix already carries crossover probabilities from ANOTHER map function and a stretched map
+            gmap2 = type(gmap)(chr_a, phy, *( [phy + 1] if via == "interp-ext" else []), gen * 2.0 + 0.25)
+            pg.interp_xoprob(gmap2, other)
         pg.interp_xoprob(gmap, mf)
         return pg.vrnt_xoprob, pg.vrnt_genpos
 
     def _impl_xoprob(self, case):
-        xo, gp = self._map_xoprob(case["fn"], case["via"], case["chr"], case["pos"])
+        try:
+            xo, gp = self._map_xoprob(case["fn"], case["via"], case["chr"], case["pos"], case.get("perm"),
+                                      case.get("ungrouped", False), case.get("prime", False))
+        except ValueError as e:
+            if not case.get("ungrouped"):
+                raise
+            return {"rejected": canon.exc_tag(e)}
         return {"xoprob": canon.enc(xo), "genpos": canon.enc(gp)}
 
     def _impl_stat(self, case):
@@ -625,14 +1192,59 @@ class C02(Prop):
             xo = [_f(v) for v in case["xoprob"]]
         m = len(xo)
         tgt = case["target"]
+        het = [True] * m          # markers at which the copy a cell came from can be read off
         L = []          # label matrices (n, m) of independent gametes
         ncalls = 0
-        if tgt.startswith("proto:"):
+        if tgt == "embv":
+            # gametes pooled over the replicates of from_gmod (each replicate must be a fresh sample)
+            embv, dalgm = _embv_mods()
+            homo = case.get("homo")
+            if homo:
+                het = [j not in set(homo) for j in range(m)]
+            pg = self._pgmat(1, xo, chr_, homo=[homo] if homo else None)
+            gm = dalgm.DenseAdditiveLinearGenomicModel(beta=numpy.array([[1.0]]), u_misc=None, u_a=numpy.ones((m, 1)),
+                                                       trait=numpy.array(["y"], dtype=object))
+            g = (RecGenerator if case["gen"] == "Generator" else RecRandomState)(case["seed"])
+            captured = []
+            orig_dh, orig_rng = embv.dense_dh, embv.global_prng
+
+            def rec(*a, **k):
+                out = orig_dh(*a, **k)
+                captured.append(numpy.array(out).copy())
+                return out
+            embv.dense_dh, embv.global_prng = rec, g
+            try:
+                embv.DenseExpectedMaximumBreedingValueMatrix.from_gmod(gm, pg, 40, max(n // 40, 1))
+            finally:
+                embv.dense_dh, embv.global_prng = orig_dh, orig_rng
+            for out in captured:
+                t, p = _decode(out[0])
+                if not ((t == 0).all() and (out[0] == out[1]).all()):
+                    return {"observable": False}
+                L.append(p.astype(bool))
+            if not L:
+                return {"observable": False}
+            ncalls = len(g.log)
+        elif tgt.startswith("proto:"):
             proto = tgt[6:]
             np_ = NPARENT[proto]
-            out, g, rows, M, N = self._run_proto(proto, case["gen"], case["seed"], 4, [list(range(np_))],
-                                                 1, n, 0, xo, chr_)
-            labs, ok = self._labels(proto, rows, out.mat)
+            nself = case.get("nself", 0)
+            if case.get("gen2"):
+                # two-generation pedigree: n independent lines, one gamete observed per line
+                outs, g, rows, M, N, _ = self._run_proto(proto, case["gen"], case["seed"], 4, [list(range(np_))],
+                                                         n, 1, nself, xo, chr_)
+                t, p = _decode(outs[0].mat[0])
+                if proto == "SelfCross":
+                    labs, ok = [p.astype(bool)], bool((t == 0).all())
+                else:
+                    labs, ok = [t == 1], bool(((t == 0) | (t == 1)).all())
+            else:
+                outs, g, rows, M, N, _ = self._run_proto(proto, case["gen"], case["seed"], 4, [list(range(np_))],
+                                                         1, n, nself, xo, chr_)
+                if nself == 0:
+                    labs, ok = self._labels(proto, rows, outs[0].mat)
+                else:
+                    labs, ok = self._labels_self1(proto, rows, outs[0].mat)
             if not ok:
                 return {"observable": False}
             L = labs
@@ -641,7 +1253,10 @@ class C02(Prop):
             mutil, cmate = _mods()[:2]
             f = getattr(mutil if tgt.startswith("mat_") else cmate, tgt)
             g = (RecGenerator if case["gen"] == "Generator" else RecRandomState)(case["seed"])
-            geno = numpy.array(_geno(2, m), dtype="int8").reshape(2, 2, m)
+            homo = case.get("homo")
+            if homo:
+                het = [j not in set(homo) for j in range(m)]
+            geno = numpy.array(_geno(2, m, 0, [homo, homo] if homo else None), dtype="int8").reshape(2, 2, m)
             xoa = numpy.array(xo, dtype=float)
             if tgt in ("mat_mate", "dense_cross"):
                 out = f(geno, geno, numpy.repeat(0, n), numpy.repeat(1, n), xoa, g)
@@ -663,53 +1278,85 @@ class C02(Prop):
         Lall = numpy.concatenate(L, axis=0)
         nn = Lall.shape[0]
         Li = Lall.astype(numpy.int64)
+        hidx = [j for j in range(m) if het[j]]
+        # crossover indicators are only visible between successive markers that are both observable
         T = Li.copy()
         T[:, 1:] = Li[:, 1:] ^ Li[:, :-1]
+        tvis = [het[j] and (j == 0 or het[j - 1]) for j in range(m)]
         diff = [[int((Li[:, i] != Li[:, j]).sum()) if i < j else 0 for j in range(m)] for i in range(m)]
         both = (Li.T @ Li).tolist()
         tboth = (T.T @ T).tolist()
         return {"observable": True, "n": nn, "xoprob": canon.enc(xo), "phase1": Li.sum(0).tolist(), "diff": diff,
-                "both": both, "xo_count": T.sum(0).tolist(), "xo_both": tboth, "ncalls": ncalls,
-                "distinct_rows": int(len(numpy.unique(Lall[: min(nn, 2000)], axis=0)))}
+                "both": both, "xo_count": T.sum(0).tolist(), "xo_both": tboth, "ncalls": ncalls, "het": het,
+                "tvis": tvis,
+                "distinct_rows": int(len(numpy.unique(Lall[: min(nn, 2000)][:, hidx], axis=0)))}
 
     # ------------------------------------------------------------------ model requests
     def requests(self, case, obs):
+        if "__unreached__" in obs:
+            return []
         k = self._k(case)
+        if k == "big":
+            return self.requests(self._expand_big(case), obs)
         if k == "scripted":
-            req = {"op": "c02.meiosis", "fn": case["fn"], "geno": case["geno"], "sel": case["sel"],
-                   "xoprob": case["xoprob"], "rnd": case["rnd"]}
-            if case["fn"] == "mate":
-                req["mgeno"] = case["mgeno"]
-                req["msel"] = case["msel"]
-            reqs = [req]
-            if "rejected" in obs:
-                return reqs
-            out = obs["out"]
-            if case["fn"] == "meiosis":
-                gam = [(case["geno"], case["sel"], case["rnd"][0], out)]
-            elif case["fn"] == "dh":
-                gam = [(case["geno"], case["sel"], case["rnd"][0], out[0]),
-                       (case["geno"], case["sel"], case["rnd"][0], out[1])]
-            else:
-                gam = [(case["geno"], case["sel"], case["rnd"][0], out[0]),
-                       (case["mgeno"], case["msel"], case["rnd"][1], out[1])]
-            for geno, sel, rnd, g in gam:
-                reqs.append({"op": "c02.spec_meiosis", "geno": geno, "sel": sel, "xoprob": case["xoprob"],
-                             "rnd": rnd, "gamete": g})
+            nper = 2 if case["fn"] == "mate" else 1
+            dd = {"dden": case["dden"]} if "dden" in case else {}
+            reqs = []
+            ncall = 1 if "rejected" in obs else len(obs["outs"])
+            base = case
+            for c in range(ncall):
+                if c >= 1 and "edit" in base:
+                    case = dict(base)
+                    case.update(base["edit"])
+                rnd = case["rnd"][c * nper:(c + 1) * nper]
+                req = {"op": "c02.meiosis", "impl": case["impl"], "fn": case["fn"], "geno": case["geno"],
+                       "sel": case["sel"], "xoprob": case["xoprob"], "rnd": rnd, **dd}
+                if case["fn"] == "mate":
+                    req["mgeno"] = case["mgeno"]
+                    req["msel"] = case["msel"]
+                reqs.append(req)
+                if "rejected" in obs:
+                    return reqs
+                out = obs["outs"][c]
+                if case["fn"] == "meiosis":
+                    gam = [(case["geno"], case["sel"], rnd[0], out)]
+                elif case["fn"] == "dh":
+                    gam = [(case["geno"], case["sel"], rnd[0], out[0]),
+                           (case["geno"], case["sel"], rnd[0], out[1])]
+                else:
+                    gam = [(case["geno"], case["sel"], rnd[0], out[0]),
+                           (case["mgeno"], case["msel"], rnd[1], out[1])]
+                for geno, sel, r, g in gam:
+                    reqs.append({"op": "c02.spec_meiosis", "geno": geno, "sel": sel, "xoprob": case["xoprob"],
+                                 "rnd": r, "gamete": g, **dd})
             return reqs
         if k == "protocol":
             reqs = [{"op": "c02.proto_calls", "proto": case["proto"], "M": obs["M"], "N": obs["N"],
                      "nself": case["nself"]}]
-            if case["nself"] == 0:
-                reqs += [{"op": "c02.spec_labels", "labels": l, "rnd": r, "xoprob": case["xoprob"]}
+            # every cell of every progeny, selfing generations included, from the recorded draws
+            geno = _geno(case["ntaxa"], len(case["xoprob"]), 0, case.get("homo"))
+            at = 0
+            for c, nd in enumerate(obs["ndraws"]):
+                reqs.append({"op": "c02.proto_full", "proto": case["proto"], "geno": geno,
+                             "xconfig": case["xconfig"], "nmating": case["nmating"], "nprogeny": case["nprogeny"],
+                             "nself": case["nself"], "xoprob": case["xoprob2"] if (c >= 1 and "xoprob2" in case)
+                             else case["xoprob"], "draws": obs["draws"][at:at + nd],
+                             "dden": 1 << 53, "pc": c * obs["N"], "fc": c * len(case["xconfig"])})
+                at += nd
+            if "labels" in obs:
+                reqs += [{"op": "c02.spec_labels", "labels": l, "rnd": r, "dden": 1 << 53, "xoprob": case["xoprob"]}
                          for l, r in zip(obs["labels"], obs["rnd"])]
             return reqs
         if k == "embv":
             full = lambda v: [v] * case["ntaxa"] if isinstance(v, int) else v
-            reqs = [{"op": "c02.embv_calls", "nprogeny": full(case["nprogeny"]), "nrep": full(case["nrep"])}]
-            if obs["observable"]:
-                reqs += [{"op": "c02.spec_labels", "labels": l, "rnd": r, "xoprob": case["xoprob"]}
-                         for l, r in zip(obs["labels"], obs["rnd"])]
+            geno = _geno(case["ntaxa"], len(case["xoprob"]), 0, case.get("homo"))
+            reqs = [{"op": "c02.embv_calls", "nprogeny": full(case["nprogeny"]), "nrep": full(case["nrep"])},
+                    {"op": "c02.embv_full", "geno": geno, "xoprob": case["xoprob"], "nprogeny": full(case["nprogeny"]),
+                     "nrep": full(case["nrep"]), "draws": obs["draws"], "dden": 1 << 53}]
+            if len(obs["dh"]) == len(obs["draws"]):
+                reqs += [{"op": "c02.spec_meiosis", "geno": geno, "sel": sel, "xoprob": case["xoprob"], "rnd": r,
+                          "dden": 1 << 53, "gamete": dh[0]}
+                         for sel, r, dh in zip(obs["sels"], obs["draws"], obs["dh"])]
             return reqs
         if k == "xoprob":
             return [{"op": "c02.gdist", "chr": case["chr"], "pos": case["pos"]}]
@@ -721,32 +1368,62 @@ class C02(Prop):
 
     # ------------------------------------------------------------------ judge
     def judge(self, case, obs, answers):
+        if "__unreached__" in obs:
+            return dict(self._verdicts[obs["__unreached__"]])
         for a in answers:
             if "err" in a:
                 raise RuntimeError("driver error: " + a["err"])
-        return getattr(self, "_judge_" + self._k(case))(case, obs, [a["ok"] for a in answers])
+        k = self._k(case)
+        if k == "big":
+            v = self._judge_scripted(self._expand_big(case), obs, [a["ok"] for a in answers])
+            v["detail"] = f"big[m={case['m']} nsel={len(case['sel'])} ntaxa={case['ntaxa']}] " + v["detail"][:600]
+        else:
+            v = getattr(self, "_judge_" + k)(case, obs, [a["ok"] for a in answers])
+        if self._scope is None:
+            if len(self._verdicts) > 20000:
+                self._verdicts.clear()
+            self._verdicts[self._ckey(case)] = dict(v)
+        return v
 
     def _judge_scripted(self, case, obs, ans):
-        model = ans[0]
         m = len(case["xoprob"])
         nsel = len(case["sel"])
         if case.get("reject") or "rejected" in obs:
             # an index of `sel` outside the population: both sides must reject (the property is silent)
+            model = ans[0]
             both = "rejected" in obs and model["out"].get("error") == obs.get("rejected") == "index"
             return {"corr": bool(both) and bool(case.get("reject")), "spec": True, "nontrivial": False,
                     "detail": f"scripted[{case['impl']}.{case['fn']}] rejected input: impl={obs.get('rejected')} "
                               f"model={model['out']}"}
-        want_calls = [[0, 1, [nsel, m]]] * model["ncalls"]
+        nout = 1 if case["fn"] == "meiosis" else 2
+        ncall = len(obs["outs"])
+        per = 1 + nout
+        out_ok, spec, want_calls, nontriv, details = True, True, [], False, []
+        for c in range(ncall):
+            model = ans[c * per]
+            specs = ans[c * per + 1:(c + 1) * per]
+            want_calls += [[0, 1, [nsel, m]]] * model["ncalls"]
+            mo = model["out"]
+            out_ok = out_ok and "value" in mo and self._same_cells(mo["value"], obs["outs"][c])
+            spec = spec and all(s["ok"] for s in specs)
+            details += [s["detail"] for s in specs if not s["ok"]][:2]
+            ph = model["phases"]
+            nontriv = nontriv or (any(any(r) for r in ph) and len({tuple(r) for r in ph}) >= 2
+                                  and any(s.get("nseen", 0) > 0 for s in specs))
         calls_ok = obs["calls"] == want_calls
-        mo = model["out"]
-        out_ok = "value" in mo and self._same_cells(mo["value"], obs["out"])
-        specs = ans[1:]
-        spec = all(s["ok"] for s in specs)
-        ph = model["phases"]
-        nontriv = any(any(r) for r in ph) and len({tuple(r) for r in ph}) >= 2
-        return {"corr": bool(out_ok and calls_ok), "spec": bool(spec), "nontrivial": nontriv,
-                "detail": f"scripted[{case['impl']}.{case['fn']}] out_equal={out_ok} calls={obs['calls']} "
-                          f"want_calls={want_calls} spec={[s['detail'] for s in specs]}"}
+        if case["fn"] == "dh":
+            # chromosome doubling: the two copies of a doubled haploid are the same gamete
+            spec = spec and all(o[0] == o[1] for o in obs["outs"])
+        untouched = obs.get("inputs_untouched", True)
+        calls_txt = obs["calls"] if len(obs["calls"]) <= 6 else f"{len(obs['calls'])} calls"
+        if not obs.get("drew_scripted_values", True):
+            calls_ok = False
+        return {"corr": bool(out_ok and calls_ok and untouched), "spec": bool(spec), "nontrivial": nontriv,
+                "detail": f"scripted[{case['impl']}.{case['fn']}{' x' + str(ncall) if ncall > 1 else ''}"
+                          f"{' edited-in-place' if 'edit' in case else ''}"
+                          f"{' ' + json.dumps(case['form']) if 'form' in case else ''}] out_equal={out_ok} "
+                          f"calls={calls_txt} calls_ok={calls_ok} inputs_untouched={untouched} "
+                          f"spec={details if details else 'copies follow the draws'}"}
 
     @staticmethod
     def _same_cells(a, b):
@@ -756,41 +1433,88 @@ class C02(Prop):
 
     def _judge_protocol(self, case, obs, ans):
         m = len(case["xoprob"])
-        want = [[0, 1, [rows, m]] for rows in (ans[0] or [])]
-        ans = ans[1:]
-        calls_ok = ans is not None and obs["calls"] == want
-        if case["nself"] != 0:
-            return {"corr": calls_ok, "spec": True, "nontrivial": False,
-                    "detail": f"protocol[{case['proto']}] nself={case['nself']} calls={obs['calls']} want={want}"}
-        spec = obs["observable"] and all(a["ok"] for a in ans)
-        lab_ok = all(a["phases"] == l for a, l in zip(ans, obs["labels"]))
-        rows = [tuple(r) for l in obs["labels"] for r in l]
-        nontriv = any(any(r) for r in rows) and len(set(rows)) >= 2
-        return {"corr": bool(calls_ok and lab_ok), "spec": bool(spec), "nontrivial": nontriv,
-                "detail": f"protocol[{case['proto']}] observable={obs['observable']} calls_ok={calls_ok} "
-                          f"labels_equal_model={lab_ok} spec={[a['detail'] for a in ans]}"}
+        ncall = len(obs["ndraws"])
+        want = [[0, 1, [rows, m]] for rows in (ans[0] or [])] * ncall
+        calls_ok = ans[0] is not None and obs["calls"] == want
+        full = ans[1:1 + ncall]
+        labs = ans[1 + ncall:]
+        # (a) every progeny cell against the protocol model on the recorded draws (all meioses of the pedigree)
+        full_ok = all("mat" in f and self._same_cells(f["mat"], mat) for f, mat in zip(full, obs["mats"]))
+        why = ""
+        if not full_ok:
+            for c, (f, mat) in enumerate(zip(full, obs["mats"])):
+                if "mat" not in f:
+                    why = f"call {c}: model rejects the recorded draws ({f.get('error')})"
+                    break
+                if not self._same_cells(f["mat"], mat):
+                    bad = [(ph, i, j) for ph in range(min(len(mat), 2)) for i in range(len(mat[ph]))
+                           for j in range(len(mat[ph][i]))
+                           if ph >= len(f["mat"]) or i >= len(f["mat"][ph]) or j >= len(f["mat"][ph][i])
+                           or f["mat"][ph][i][j] != mat[ph][i][j]]
+                    if bad:
+                        ph, i, j = bad[0]
+                        t_i, p_i = _decode(numpy.array([[mat[ph][i][j]]]) - 5 * j)
+                        t_m, p_m = _decode(numpy.array([[f["mat"][ph][i][j]]]) - 5 * j)
+                        why = (f"call {c}: progeny {i} copy {ph} marker {j} carries the allele of founder "
+                               f"{int(t_i[0, 0])} copy {int(p_i[0, 0])}; the recorded draws of its pedigree give "
+                               f"founder {int(t_m[0, 0])} copy {int(p_m[0, 0])} ({len(bad)} cells differ)")
+                    else:
+                        why = f"call {c}: progeny matrix shape differs from the model's"
+                    break
+        # (b) the copy switches of the last meiosis against its draws (no selfing, fully heterozygous founders)
+        lab_spec = lab_ok = True
+        if "labels" in obs:
+            lab_spec = obs["observable"] and all(a["ok"] for a in labs)
+            lab_ok = all(a["phases"] == l for a, l in zip(labs, obs["labels"]))
+        # the deterministic prediction is only defined when the calls are the modelled ones
+        grid = obs.get("exact_grid", True)      # recorded doubles are k/2^53 (else the model cannot be fed exactly)
+        spec = bool(lab_spec and (full_ok or not calls_ok or not grid))
+        last = obs["draws"][-1] if obs["draws"] else []
+        xs = [Fraction(v) for v in canon.dec(case["xoprob2"] if (ncall > 1 and "xoprob2" in case) else case["xoprob"])]
+        hit_rows = {tuple(int(Fraction(r, 1 << 53) < x) for r, x in zip(row, xs)) for row in last}
+        nontriv = any(any(r) for r in hit_rows) and len(hit_rows) >= 2
+        return {"corr": bool(calls_ok and full_ok and lab_ok and grid), "spec": spec, "nontrivial": nontriv,
+                "detail": f"protocol[{case['proto']} nself={case['nself']} calls={ncall}"
+                          f"{' partly-inbred founders' if case.get('homo') else ''}] calls_ok={calls_ok} "
+                          f"progeny_equal_model={full_ok} {why} labels_equal_model={lab_ok} "
+                          f"spec={[a['detail'] for a in labs if not a['ok']][:2]}"}
 
     def _judge_embv(self, case, obs, ans):
         m = len(case["xoprob"])
         want = [[0, 1, [rows, m]] for rows in ans[0]]
-        ans = ans[1:]
         calls_ok = obs["calls"] == want
-        full = lambda v: [v] * case["ntaxa"] if isinstance(v, int) else v
-        want_sel = [[i] * p for i, (p, r) in enumerate(zip(full(case["nprogeny"]), full(case["nrep"]))) for _ in range(r)]
-        spec = obs["observable"] and len(ans) == len(obs["labels"]) and all(a["ok"] for a in ans)
-        lab_ok = obs["observable"] and all(a["phases"] == l for a, l in zip(ans, obs["labels"]))
-        rows = [tuple(r) for l in obs["labels"] for r in l]
-        return {"corr": bool(calls_ok and lab_ok and obs["sels"] == want_sel), "spec": bool(spec),
-                "nontrivial": any(any(r) for r in rows) and len(set(rows)) >= 2,
-                "detail": f"embv observable={obs['observable']} calls_ok={calls_ok} calls={obs['calls']} "
-                          f"labels_equal_model={lab_ok} spec={[a['detail'] for a in ans][:3]}"}
+        full = ans[1]
+        specs = ans[2:]
+        fullv = lambda v: [v] * case["ntaxa"] if isinstance(v, int) else v
+        want_sel = [[i] * p for i, (p, r) in enumerate(zip(fullv(case["nprogeny"]), fullv(case["nrep"]))) for _ in range(r)]
+        full_ok = "value" in full and self._same_cells(full["value"], obs["dh"]) or \
+            ("value" in full and full["value"] == [] and obs["dh"] == [])
+        # one recorded draw matrix per captured dense_dh call: otherwise the adapter cannot pair gametes with draws
+        # (broken correspondence only); chromosome doubling itself is always demanded
+        paired = len(obs["dh"]) == len(obs["draws"])
+        spec = obs["doubled"] and (not paired or (len(specs) == len(obs["dh"]) and all(a["ok"] for a in specs)))
+        xs = [Fraction(v) for v in canon.dec(case["xoprob"])]
+        hit_rows = {tuple(int(Fraction(r, 1 << 53) < x) for r, x in zip(row, xs)) for d in obs["draws"] for row in d}
+        return {"corr": bool(calls_ok and full_ok and paired and obs["sels"] == want_sel), "spec": bool(spec),
+                "nontrivial": any(any(r) for r in hit_rows) and len(hit_rows) >= 2,
+                "detail": f"embv{' partly-inbred taxa' if case.get('homo') else ''} doubled={obs['doubled']} "
+                          f"dh_matrices={len(obs['dh'])} draw_matrices={len(obs['draws'])} "
+                          f"calls_ok={calls_ok} dh_equal_model={bool(full_ok)} "
+                          f"spec={[a['detail'] for a in specs if not a['ok']][:2]}"}
 
     def _judge_xoprob(self, case, obs, ans):
+        if case.get("ungrouped") or "rejected" in obs:
+            ok = obs.get("rejected") == "value" and bool(case.get("ungrouped"))
+            return {"corr": ok, "spec": True, "nontrivial": False,
+                    "detail": f"xoprob[{case['via']}] matrix not grouped: implementation "
+                              f"{'rejects (ValueError)' if 'rejected' in obs else 'accepts'}"}
         dist = ans[0]["dist"]
         fn = _haldane if case["fn"] == "haldane" else _kosambi
         xo = obs["xoprob"]
         pos = [Fraction(v) for v in case["pos"]]
         chr_ = case["chr"]
+        exact = case["via"] in ("rprob1g", "extended")      # no interpolation in between: bit-for-bit distances
+        rel, abs_ = (1e-12, 1e-15) if exact else (1e-9, 1e-11)
         # correspondence with the model's distances
         corr = len(dist) == len(xo)
         if corr:
@@ -799,7 +1523,7 @@ class C02(Prop):
                     corr = corr and x == "1/2"
                 else:
                     corr = corr and not isinstance(canon.dec(x), str) and \
-                        canon.close(canon.dec(x), Fraction(fn(float(canon.dec(d)))), rel=1e-12, abs_=1e-15)
+                        canon.close(canon.dec(x), Fraction(fn(float(canon.dec(d)))), rel=rel, abs_=abs_)
         # Spec, from the positions alone
         spec, why = len(xo) == len(chr_), "ok"
         for j in range(min(len(xo), len(chr_))):
@@ -810,14 +1534,16 @@ class C02(Prop):
                     break
             else:
                 w = fn(float(pos[j] - pos[j - 1]))
-                if isinstance(x, str) or not canon.close(x, Fraction(w), rel=1e-12, abs_=1e-15):
+                if isinstance(x, str) or not canon.close(x, Fraction(w), rel=rel, abs_=abs_):
                     spec, why = False, f"marker {j}: xoprob {xo[j]} != mapfn(distance) {w}"
                     break
-        if case["via"] == "interp":
-            gp_ok = canon.close_enc(obs["genpos"], case["pos"], rel=1e-12, abs_=1e-15)
+        if case["via"].startswith("interp"):
+            gp_ok = canon.close_enc(obs["genpos"], case["pos"], rel=1e-12, abs_=1e-12)
             corr = corr and gp_ok
         return {"corr": bool(corr), "spec": bool(spec), "nontrivial": len(set(chr_)) >= 2,
-                "detail": f"xoprob[{case['fn']},{case['via']}] impl={xo} model_dist={dist} {why}"}
+                "detail": f"xoprob[{case['fn']},{case['via']}{',shuffled' if 'perm' in case else ''}"
+                          f"{',primed' if case.get('prime') else ''}] impl={xo} "
+                          f"model_dist={dist} {why}"}
 
     def _judge_stat(self, case, obs, ans):
         if not obs.get("observable"):
@@ -840,14 +1566,29 @@ class C02(Prop):
             worst = max(worst, z)
             if z > 1.0:
                 bad.append(f"{name}: {k}/{n}={k / n:.5f} expected {p:.5f} (|dev|={abs(k - n * p):.0f} > {b:.0f})")
+        het = obs.get("het") or [True] * m
+        tvis = obs.get("tvis") or [True] * m
+        if case.get("gen2"):
+            # law of a gamete two meioses away from the labelled individual (`two_generation_recombination_law`)
+            pair2 = [[float(canon.dec(v)) for v in r] for r in pr["pair2"]]
+            for j in range(m):
+                chk(f"segregation P(grandparental copy 1 at {j})", obs["phase1"][j], phase[j])
+            for i in range(m):
+                for j in range(i + 1, m):
+                    chk(f"two-generation recombination({i},{j})", obs["diff"][i][j], pair2[i][j])
+            het = tvis = [False] * m
         for j in range(m):
-            chk(f"segregation P(copy1 at {j})", obs["phase1"][j], phase[j])
-            chk(f"crossover frequency in interval {j}", obs["xo_count"][j], xo[j])
+            if het[j]:
+                chk(f"segregation P(copy1 at {j})", obs["phase1"][j], phase[j])
+            if tvis[j]:
+                chk(f"crossover frequency in interval {j}", obs["xo_count"][j], xo[j])
         for i in range(m):
             for j in range(i + 1, m):
-                chk(f"recombination({i},{j})", obs["diff"][i][j], pair[i][j])
-                chk(f"joint copy1({i},{j})", obs["both"][i][j], both[i][j])
-                chk(f"joint crossover({i},{j})", obs["xo_both"][i][j], xo[i] * xo[j])
+                if het[i] and het[j]:
+                    chk(f"recombination({i},{j})", obs["diff"][i][j], pair[i][j])
+                    chk(f"joint copy1({i},{j})", obs["both"][i][j], both[i][j])
+                if tvis[i] and tvis[j]:
+                    chk(f"joint crossover({i},{j})", obs["xo_both"][i][j], xo[i] * xo[j])
         # Haldane map: pairwise value must be the map function of the genetic distance; different
         # chromosomes: 1/2 and independent assortment
         hal_ok = True
@@ -856,6 +1597,8 @@ class C02(Prop):
             pos = [float(Fraction(v)) for v in mp["pos"]]
             for i in range(m):
                 for j in range(i + 1, m):
+                    if not (het[i] and het[j]):
+                        continue
                     if mp["chr"][i] != mp["chr"][j]:
                         chk(f"unlinked recombination({i},{j})", obs["diff"][i][j], 0.5)
                         hal_ok = hal_ok and abs(pair[i][j] - 0.5) < 1e-12
@@ -866,21 +1609,62 @@ class C02(Prop):
         spec = not bad
         corr = bool(pr["enum_ok"]) and hal_ok and obs["distinct_rows"] >= 2
         return {"corr": corr, "spec": spec, "nontrivial": True,
-                "detail": f"stat[{case['target']},{case['gen']},seed={case['seed']}] n={n} statistics="
+                "detail": f"stat[{case['target']}{' nself=' + str(case['nself']) if case.get('nself') else ''}"
+                          f"{' two-generation law' if case.get('gen2') else ''}"
+                          f"{' partly-inbred' if case.get('homo') else ''},{case['gen']},seed={case['seed']}] n={n} statistics="
                           f"{2 * m + 3 * m * (m - 1) // 2} worst |dev|/budget={worst:.3f} enum_ok={pr['enum_ok']} "
                           f"haldane_model_ok={hal_ok} " + ("; ".join(bad[:4]) if bad else "all within budget")}
 
     # ------------------------------------------------------------------ findings / shrinking
     def signature(self, case, obs, verdict):
         sig = {"kind": case["kind"]}
-        for k in ("impl", "fn", "proto", "target", "via"):
+        for k in ("impl", "fn", "proto", "target", "via", "nself"):
             if k in case:
                 sig[k] = case[k]
         return sig
 
     def shrink(self, case):
         k = self._k(case)
+        if k == "big":
+            nsel = len(case["sel"])
+            for i in range(nsel):
+                if nsel > 1:
+                    c = dict(case)
+                    for f in ("sel", "hits", "msel", "mhits"):
+                        if f in case:
+                            c[f] = case[f][:i] + case[f][i + 1:]
+                    yield c
+            for m2 in (case["m"] // 2, (3 * case["m"]) // 4):
+                if 1 <= m2 < case["m"]:
+                    c = dict(case)
+                    c["m"] = m2
+                    for f in ("hits", "mhits"):
+                        if f in case:
+                            c[f] = [[j for j in h if j < m2] for h in case[f]]
+                    yield c
+            if case.get("homo_mod"):
+                c = dict(case)
+                c["homo_mod"] = 0
+                yield c
+            return
         if k == "scripted":
+            if case.get("repeat", 1) > 1:
+                nper = 2 if case["fn"] == "mate" else 1
+                c = dict(case)
+                c["repeat"] = case["repeat"] - 1
+                c["rnd"] = case["rnd"][:nper * c["repeat"]]
+                if c["repeat"] == 1:
+                    c.pop("edit", None)
+                yield c
+            if "form" in case:
+                c = dict(case)
+                del c["form"]
+                yield c
+            if "edit" in case:
+                c = dict(case)
+                del c["edit"]
+                yield c
+                return            # (row / marker cuts below do not cut the edited arrays)
             nsel = len(case["sel"])
             for i in range(nsel):
                 if nsel > 1:
@@ -901,7 +1685,27 @@ class C02(Prop):
                         c["mgeno"] = [[cut(r) for r in ph] for ph in case["mgeno"]]
                     c["rnd"] = [[cut(r) for r in mtx] for mtx in case["rnd"]]
                     yield c
+        elif k == "protocol" and case["gen"] == "Scripted":
+            if case.get("homo"):
+                c = dict(case)
+                del c["homo"]
+                yield c
         elif k == "protocol":
+            if case.get("ncall", 1) > 1:
+                c = dict(case)
+                del c["ncall"]
+                c.pop("xoprob2", None)
+                yield c
+            if "xoprob2" in case:
+                return
+            if case["nself"] > 0:
+                c = dict(case)
+                c["nself"] = case["nself"] - 1
+                yield c
+            if case.get("homo"):
+                c = dict(case)
+                del c["homo"]
+                yield c
             if len(case["xconfig"]) > 1:
                 for i in range(len(case["xconfig"])):
                     c = dict(case)
@@ -915,6 +1719,8 @@ class C02(Prop):
                 if m > 1:
                     c = dict(case)
                     c["xoprob"] = case["xoprob"][:j] + case["xoprob"][j + 1:]
+                    if case.get("homo"):
+                        c["homo"] = [[x - (x > j) for x in js if x != j] for js in case["homo"]]
                     yield c
             for f in ("nmating", "nprogeny"):
                 if isinstance(case[f], list):
@@ -927,6 +1733,15 @@ class C02(Prop):
                     c[f] = 1
                     yield c
         elif k == "xoprob":
+            if case.get("prime"):
+                c = dict(case)
+                del c["prime"]
+                yield c
+            if "perm" in case:
+                c = dict(case)
+                del c["perm"]
+                yield c
+                return
             n = len(case["chr"])
             labels = sorted(set(case["chr"]))
             if len(labels) > 1:
@@ -941,7 +1756,7 @@ class C02(Prop):
                     c = dict(case)
                     c["chr"] = case["chr"][:j] + case["chr"][j + 1:]
                     c["pos"] = case["pos"][:j] + case["pos"][j + 1:]
-                    if case["via"] == "interp":
+                    if case["via"] not in ("rprob1g", "extended"):
                         cnt = {}
                         for v in c["chr"]:
                             cnt[v] = cnt.get(v, 0) + 1
@@ -952,6 +1767,8 @@ class C02(Prop):
             if case["ntaxa"] > 1:
                 c = dict(case)
                 c["ntaxa"] = case["ntaxa"] - 1
+                if case.get("homo"):
+                    c["homo"] = case["homo"][:-1]
                 for f in ("nprogeny", "nrep"):
                     if isinstance(case[f], list):
                         c[f] = case[f][:-1]
@@ -985,20 +1802,59 @@ class C02(Prop):
                 setattr(obj, name, old)
 
         def meiosis_variant(le=False, drop0=False, one_row=False, roll=False, two_calls=False,
-                            float32=False, clip_half=False):
+                            float32=False, clip_half=False, skip_homo=False, isclose=False, block=0, cache=None,
+                            inplace=False, row_chunk=0, sel_int8=False, abs_sel=False, flat_c=False,
+                            clip_eps=False, xo32=False, cap=0, memo_parent=False, minus_eps=False, tiny_zero=False):
             def f(geno, sel, xoprob, rng):
+                if block and len(xoprob) > block:
+                    # memory guard: the marker axis in blocks, each block simulated from scratch
+                    return numpy.concatenate([f(geno[:, :, st:st + block], sel, xoprob[st:st + block], rng)
+                                              for st in range(0, len(xoprob), block)], axis=1)
                 gshape = (len(sel), len(xoprob))
-                rnd = rng.uniform(0, 1, gshape)
+                if cache is not None:
+                    if gshape not in cache:
+                        cache[gshape] = rng.uniform(0, 1, gshape)     # "reuse the buffer of random numbers"
+                    rnd = cache[gshape]
+                else:
+                    rnd = rng.uniform(0, 1, gshape)
                 if float32:
                     rnd = rnd.astype("float32")
                 if clip_half:
                     xoprob = numpy.minimum(xoprob, 0.5)
+                if clip_eps:
+                    xoprob = numpy.clip(xoprob, 1e-6, 1.0)
+                if xo32:
+                    xoprob = numpy.asarray(xoprob).astype("float32")
                 if one_row and len(sel):
                     rnd = numpy.repeat(rnd[:1], len(sel), axis=0)
+                if row_chunk and len(sel) > row_chunk:
+                    rnd = rnd.copy()
+                    rnd[row_chunk:] = rnd[:len(sel) - row_chunk]       # the chunk of draws is recycled
+                if sel_int8:
+                    sel = numpy.asarray(sel).astype("int8")
+                if abs_sel:
+                    sel = numpy.abs(numpy.asarray(sel))
+                if flat_c:
+                    geno = geno.ravel(order="K").reshape(geno.shape)   # assumes C layout
                 xo = numpy.roll(xoprob, 1) if roll else xoprob
+                if minus_eps:
+                    xo = xo - 1e-12
+                if tiny_zero:
+                    xo = numpy.where(xo < 1e-10, 0.0, xo)
                 gamete = numpy.empty(gshape, dtype=geno.dtype)
+                memo = {}
                 for i, s in enumerate(sel):
                     mask = (rnd[i] <= xo) if le else (rnd[i] < xo)
+                    if memo_parent:
+                        mask = memo.setdefault(int(s), mask)           # crossover positions computed once per parent
+                    if cap:
+                        keep = numpy.flatnonzero(mask)[:cap]           # fixed-size buffer of crossover positions
+                        mask = numpy.zeros(len(mask), dtype=bool)
+                        mask[keep] = True
+                    if isclose:
+                        mask = mask & ~numpy.isclose(rnd[i], xo)
+                    if skip_homo:
+                        mask = mask & (geno[0, s] != geno[1, s])
                     if drop0 and len(mask):
                         mask = mask.copy()
                         mask[0] = False
@@ -1008,7 +1864,96 @@ class C02(Prop):
                         stix = spix
                         phase = 1 - phase
                     gamete[i, stix:] = geno[phase, s, stix:]
+                    if inplace:
+                        geno[0, s, :] = gamete[i]                      # the parent's first copy is used as scratch
                 return gamete
+            return f
+
+        def mate_aliasing(orig_mate):
+            """selfing generations write the female gametes into the hybrid matrix before the male meiosis
+            reads it (the first mat_mate of the protocol, on the founders, is left alone)"""
+            state = {"n": 0}
+
+            def g(fgeno, mgeno, fsel, msel, xoprob, rng):
+                state["n"] += 1
+                if fgeno is mgeno and fgeno.shape[1] == len(fsel) and state["n"] > 1:
+                    fgeno[0] = mutil.mat_meiosis(fgeno, fsel, xoprob, rng)
+                    fgeno[1] = mutil.mat_meiosis(mgeno, msel, xoprob, rng)
+                    return fgeno
+                return orig_mate(fgeno, mgeno, fsel, msel, xoprob, rng)
+
+            @contextlib.contextmanager
+            def ctx(mod):
+                state["n"] = 0
+                with patch(mod, "mat_mate", g):
+                    yield
+            return ctx
+
+        def mate_sel_int8(orig_mate):
+            def g(fgeno, mgeno, fsel, msel, xoprob, rng):
+                return orig_mate(fgeno, mgeno, numpy.asarray(fsel).astype("int8"), numpy.asarray(msel).astype("int8"),
+                                 xoprob, rng)
+            return g
+
+        def proto_memo_xoprob(cls):
+            """mate() keeps the crossover probabilities of the first matrix it sees (per protocol object)"""
+            orig = cls.mate
+
+            def mate(self, pgmat, *a, **k):
+                if getattr(self, "_xo_memo", None) is None or len(self._xo_memo) != pgmat.nvrnt:
+                    self._xo_memo = pgmat.vrnt_xoprob.copy()
+                keep = pgmat.vrnt_xoprob
+                pgmat._vrnt_xoprob = self._xo_memo
+                try:
+                    out = orig(self, pgmat, *a, **k)
+                    out._vrnt_xoprob = keep
+                    return out
+                finally:
+                    pgmat._vrnt_xoprob = keep
+            return mate
+
+        def embv_dh_half_at_start(geno, sel, xoprob, rng):
+            xo = numpy.array(xoprob, dtype=float)
+            if len(xo):
+                xo[0] = 0.5
+            return cmate.dense_dh(geno, sel, xo, rng)
+
+        @contextlib.contextmanager
+        def fresh_each_time(mod, name, make):
+            """a mutant with per-activation state (caches)"""
+            with patch(mod, name, make()):
+                yield
+
+        import importlib
+        pmods = {n: importlib.import_module(f"pybrops.breed.prot.mate.{n}") for n in PROTOS}
+
+        def gdist_sorted_only(self, vrnt_chrgrp, vrnt_genpos, ast=None, asp=None):
+            # a chromosome start is recognised by an INCREASE of the label (fine for sorted labels only)
+            c = vrnt_chrgrp[ast:asp]
+            g = vrnt_genpos[ast:asp]
+            out = numpy.empty(g.shape, dtype=float)
+            if len(out):
+                out[0] = numpy.inf
+            out[1:] = numpy.where(c[1:] > c[:-1], numpy.inf, g[1:] - g[:-1])
+            return out
+
+        def gdist_float32(self, vrnt_chrgrp, vrnt_genpos, ast=None, asp=None):
+            c = vrnt_chrgrp[ast:asp]
+            g = vrnt_genpos[ast:asp].astype("float32")
+            out = numpy.empty(g.shape, dtype=float)
+            if len(out):
+                out[0] = numpy.inf
+            out[1:] = numpy.where(c[1:] != c[:-1], numpy.inf, (g[1:] - g[:-1]).astype(float))
+            return out
+
+        def gdist1p_no_inf(self, vrnt_chrgrp, vrnt_phypos, ast=None, asp=None):
+            gp = self.interp_genpos(vrnt_chrgrp, vrnt_phypos)
+            return gdist_no_inf(self, vrnt_chrgrp, gp, ast, asp)
+
+        def mapfn_snap(orig):
+            def f(self, d):
+                d = numpy.where(numpy.asarray(d) < 1e-6, 0.0, d)        # "markers at the same position"
+                return orig(self, d)
             return f
 
         def gdist_no_inf(self, vrnt_chrgrp, vrnt_genpos, ast=None, asp=None):
@@ -1034,6 +1979,24 @@ class C02(Prop):
             d = gmap.gdist1g(self._vrnt_chrgrp, self._vrnt_genpos)
             self.vrnt_xoprob = numpy.where(numpy.isinf(d), 0.5, d)
 
+        def interp_keep_existing(orig):
+            def f(self, gmap, gmapfn, **kwargs):
+                if self._vrnt_xoprob is None:          # "already interpolated"
+                    return orig(self, gmap, gmapfn, **kwargs)
+                self.vrnt_genpos = gmap.interp_genpos(self._vrnt_chrgrp, self._vrnt_phypos)
+            return f
+
+        def rprob1g_memo(orig):
+            memo = {}
+
+            def f(self, gmap, vrnt_chrgrp, vrnt_genpos):
+                key = (id(gmap), id(vrnt_genpos), len(vrnt_genpos))
+                if key not in memo:
+                    memo.clear()
+                    memo[key] = orig(self, gmap, vrnt_chrgrp, vrnt_genpos)
+                return memo[key]
+            return f
+
         def dh_fresh_generator(geno, sel, xoprob, rng):
             return cmate.dense_dh(geno, sel, xoprob, numpy.random.default_rng(1))
 
@@ -1046,7 +2009,93 @@ class C02(Prop):
 
         import pybrops.popgen.gmap.ExtendedGeneticMap as egm
 
-        return [
+        import pybrops.popgen.gmap.ExtendedGeneticMap as egm
+        import pybrops.popgen.gmat.DenseGenotypeMatrix as dgm
+
+        def reach_mat(c):          # cases that execute breed/prot/mate/util.py
+            k = c["kind"]
+            return k == "protocol" or (k in ("scripted", "big") and c["impl"] == "mat") or \
+                (k == "statistical-support" and (c["target"].startswith("mat_") or c["target"].startswith("proto:")))
+
+        def reach_dense(c):        # cases that execute core/util/mate.py
+            k = c["kind"]
+            return k == "embv" or (k in ("scripted", "big") and c["impl"] == "dense") or \
+                (k == "statistical-support" and (c["target"].startswith("dense_") or c["target"] == "embv"))
+
+        def reach_map(c):
+            return c["kind"] == "xoprob" or (c["kind"] == "statistical-support" and "map" in c)
+
+        def reach_proto(pn):
+            return lambda c: (c["kind"] == "protocol" and c["proto"] == pn) or \
+                (c["kind"] == "statistical-support" and c["target"] == "proto:" + pn)
+
+        def scope_of(name):
+            if name.startswith("mat_meiosis"):
+                return reach_mat
+            if name.startswith("dense_meiosis"):
+                return reach_dense
+            if name.startswith("embv"):
+                return lambda c: c["kind"] == "embv" or c.get("target") == "embv"
+            for pn in PROTOS:
+                if name.startswith(pn + "_"):
+                    return reach_proto(pn)
+            return reach_map
+        r3 = []
+        for mod, nm in ((mutil, "mat_meiosis"), (cmate, "dense_meiosis")):
+            r3 += [
+                (nm + "_ignores_hits_at_homozygous_markers", lambda mod=mod, nm=nm: patch(mod, nm, meiosis_variant(skip_homo=True))),
+                (nm + "_isclose_ties_are_not_crossovers", lambda mod=mod, nm=nm: patch(mod, nm, meiosis_variant(isclose=True))),
+                (nm + "_marker_blocks_of_8192", lambda mod=mod, nm=nm: patch(mod, nm, meiosis_variant(block=8192))),
+                (nm + "_marker_blocks_of_32768", lambda mod=mod, nm=nm: patch(mod, nm, meiosis_variant(block=32768))),
+                (nm + "_draws_cached_by_shape",
+                 lambda mod=mod, nm=nm: fresh_each_time(mod, nm, lambda: meiosis_variant(cache={}))),
+                (nm + "_parent_copy_used_as_scratch", lambda mod=mod, nm=nm: patch(mod, nm, meiosis_variant(inplace=True))),
+                (nm + "_draw_chunk_recycled_after_1024_gametes",
+                 lambda mod=mod, nm=nm: patch(mod, nm, meiosis_variant(row_chunk=1024))),
+                (nm + "_sel_cast_to_int8", lambda mod=mod, nm=nm: patch(mod, nm, meiosis_variant(sel_int8=True))),
+                (nm + "_sel_absolute_value", lambda mod=mod, nm=nm: patch(mod, nm, meiosis_variant(abs_sel=True))),
+                (nm + "_assumes_c_layout", lambda mod=mod, nm=nm: patch(mod, nm, meiosis_variant(flat_c=True))),
+                (nm + "_xoprob_floor_1e-6", lambda mod=mod, nm=nm: patch(mod, nm, meiosis_variant(clip_eps=True))),
+                (nm + "_xoprob_cast_to_float32", lambda mod=mod, nm=nm: patch(mod, nm, meiosis_variant(xo32=True))),
+                (nm + "_at_most_64_crossovers_per_gamete", lambda mod=mod, nm=nm: patch(mod, nm, meiosis_variant(cap=64))),
+                (nm + "_at_most_256_crossovers_per_gamete", lambda mod=mod, nm=nm: patch(mod, nm, meiosis_variant(cap=256))),
+                (nm + "_crossovers_memoised_per_parent", lambda mod=mod, nm=nm: patch(mod, nm, meiosis_variant(memo_parent=True))),
+                (nm + "_compares_with_xoprob_minus_1e-12", lambda mod=mod, nm=nm: patch(mod, nm, meiosis_variant(minus_eps=True))),
+                (nm + "_xoprob_below_1e-10_is_zero", lambda mod=mod, nm=nm: patch(mod, nm, meiosis_variant(tiny_zero=True))),
+            ]
+        for pn in ("TwoWayCross", "SelfCross", "ThreeWayCross", "FourWayDHCross"):
+            r3.append((pn + "_selfing_overwrites_the_hybrid_matrix",
+                       lambda pn=pn: mate_aliasing(pmods[pn].mat_mate)(pmods[pn])))
+        r3 += [
+            ("ThreeWayCross_parent_indices_cast_to_int8",
+             lambda: patch(pmods["ThreeWayCross"], "mat_mate", mate_sel_int8(pmods["ThreeWayCross"].mat_mate))),
+            ("TwoWayCross_memoises_xoprob_of_first_matrix",
+             lambda: patch(protos["TwoWayCross"], "mate", proto_memo_xoprob(protos["TwoWayCross"]))),
+            ("FourWayDHCross_memoises_xoprob_of_first_matrix",
+             lambda: patch(protos["FourWayDHCross"], "mate", proto_memo_xoprob(protos["FourWayDHCross"]))),
+            ("embv_forces_one_half_at_first_marker", lambda: patch(embv_mod, "dense_dh", embv_dh_half_at_start)),
+        ]
+        r3 += [
+            ("gdist1g_chromosome_start_only_where_label_increases",
+             lambda: patch(sgm.StandardGeneticMap, "gdist1g", gdist_sorted_only)),
+            ("extended_gdist1g_chromosome_start_only_where_label_increases",
+             lambda: patch(egm.ExtendedGeneticMap, "gdist1g", gdist_sorted_only)),
+            ("gdist1g_positions_in_float32", lambda: patch(sgm.StandardGeneticMap, "gdist1g", gdist_float32)),
+            ("gdist1p_without_inf_at_chromosome_starts",
+             lambda: patch(sgm.StandardGeneticMap, "gdist1p", gdist1p_no_inf)),
+            ("haldane_snaps_distances_below_1e-6_to_zero",
+             lambda: patch(hal.HaldaneMapFunction, "mapfn", mapfn_snap(hal.HaldaneMapFunction.mapfn))),
+            ("kosambi_snaps_distances_below_1e-6_to_zero",
+             lambda: patch(kos.KosambiMapFunction, "mapfn", mapfn_snap(kos.KosambiMapFunction.mapfn))),
+            ("interp_xoprob_keeps_probabilities_already_present",
+             lambda: patch(dpgm.DensePhasedGenotypeMatrix, "interp_xoprob",
+                           interp_keep_existing(dpgm.DensePhasedGenotypeMatrix.interp_xoprob))),
+            ("haldane_rprob1g_memoised_by_argument_identity",
+             lambda: patch(hal.HaldaneMapFunction, "rprob1g", rprob1g_memo(hal.HaldaneMapFunction.rprob1g))),
+            ("dense_genotype_matrix_interp_xoprob_without_map_function",
+             lambda: patch(dgm.DenseGenotypeMatrix, "interp_xoprob", interp_skip_mapfn)),
+        ]
+        return [(nm, (lambda nm=nm, ctx=ctx: self._scoped(scope_of(nm), ctx()))) for nm, ctx in r3 + [
             ("mat_meiosis_float32_draws", lambda: patch(mutil, "mat_meiosis", meiosis_variant(float32=True))),
             ("dense_meiosis_float32_draws", lambda: patch(cmate, "dense_meiosis", meiosis_variant(float32=True))),
             ("mat_meiosis_xoprob_clipped_to_half", lambda: patch(mutil, "mat_meiosis", meiosis_variant(clip_half=True))),
@@ -1077,7 +2126,7 @@ class C02(Prop):
                                                   lambda self, d: 0.5 * (1.0 - numpy.exp(-1.0 * d)))),
             ("kosambi_tanh_d", lambda: patch(kos.KosambiMapFunction, "mapfn",
                                              lambda self, d: 0.5 * numpy.tanh(1.0 * d))),
-        ]
+        ]]
 
 
 PROP = C02()
